@@ -1,15 +1,27 @@
 """Helpers of the C13 rules.
 
 Everything here is formulated on *roles* and *calling contexts*: a context is an entry point of the library (exported
-function, or a function whose address is taken: handler, thread body, destructor) with every static helper inlined
-(exported functions are operations in their own right and are not entered).  Sites are found by what they do
-(`free` of a record, `started_threads--`, `pthr_create`, ...), objects by their record type, fields by
+function, constructor, or a function whose address is taken: handler, thread body, destructor) with every static
+helper inlined (exported functions are operations in their own right and are not entered).  Sites are found by what
+they do (`free` of a record, `started_threads--`, `pthr_create`, ...), objects by their record type, fields by
 (record, field); nothing depends on the name of a static function, of a local or of a parameter.
+
+A context is normalised (ctx_of) so that the rules see one spelling of what the program does:
+  fold_builtin_expect / switch_on_bool      likely(), switch ((int)!!c)
+  normalise_fields + _derive_renames        grouping sub-structs flattened; regrouped / renamed fields found by role
+  fold_deref_addr, retype_untyped_pointers  out-parameters (`*(&x)`), `void *` variables used as one record type
+  recover_containers                        open-coded container_of, a member pointer P of T = container_of(P, ..) is &T->m
+  substitute_ptr_locals                     locals that hold an address, a function or iv_list_empty(&X)
+  fold_const_tables                         reads of const tables / structs of functions
+  partition_values                          trace partitioning on what is known about locals (constants, zero-ness,
+                                            ranges, functions, outcomes of `c ? a : b`): infeasible paths are removed,
+                                            indirect calls the program text decides get their target
+  enter_resolved_calls + dispatch_only      those calls are entered; their targets are no entry points of their own
 """
 import copy
 import json
-from ..core import (AnalysisBroken, Inliner, canon, strip, walk, last_member, lvalue_steps, norm_cond, forward,
-                    root_var, is_int, is_null, PURE_CALLS, subst, simplify)
+from ..core import (AnalysisBroken, Inliner, Block, canon, strip, walk, last_member, lvalue_steps, norm_cond, forward,
+                    root_var, is_int, is_null, PURE_CALLS, subst, simplify, fold, partition_flags, copy_propagate)
 from ..analyses import is_call, locksets, held, lock_effect, _mem_keys
 from .. import roles
 
@@ -30,14 +42,924 @@ def _cache(prog):
 
 
 def ctx_of(prog, f):
-    """f with every static helper inlined (normalised: flags partitioned, copies propagated)."""
+    """f with every static helper inlined (normalised: flags partitioned, copies propagated, grouping sub-structs
+    flattened, fields that were regrouped/renamed identified by their role and spelled with their canonical name)."""
     c = _cache(prog)
+    if 'renames' not in c:
+        _derive_renames(prog)
     key = ('ctx', f.q)
     if key not in c:
         g = Inliner(prog, stop=lambda t: not t.static).inline(f)
-        substitute_ptr_locals(g)
+        for _round in range(4):
+            renorm = resolve_ghost_calls(g)
+            if _round == 0:
+                expand_struct_stores(prog, g)
+                if scalarise_structs(prog, g):
+                    renorm = True
+            if renorm:
+                partition_flags(g)           # the result variables / struct fields are flags now
+                try:
+                    copy_propagate(g)
+                except AnalysisBroken:
+                    pass
+            if grouped(prog):
+                normalise_fields(prog, g, {})
+            fold_builtin_expect(g)
+            switch_on_bool(g)
+            for _it in range(4):
+                # `c = &pool->started_threads; *c += 1` is `pool->started_threads += 1` only after the local was
+                # substituted; `t = &pool->threads; t->nr--` is `pool->threads.nr--`: iterate
+                n = fold_fn_deref(g) + fold_deref_addr(g) + retype_untyped_pointers(g) + recover_containers(prog, g) + fold_const_tables(prog, g)
+                if substitute_ptr_locals(g):
+                    n += 1
+                    if grouped(prog):
+                        normalise_fields(prog, g, {})
+                if not n:
+                    break
+            gained = partition_values(g, prog)
+            g2 = enter_resolved_calls(prog, g, _round + 1)
+            if g2 is not None:
+                g = g2
+            elif not gained[0]:
+                break                       # (pruned edges may make more locals single-valued: another round)
+        if c['renames'] and not c.get('deriving'):
+            normalise_fields(prog, g, c['renames'])
         c[key] = g
     return c[key]
+
+
+# --------------------------------------------------------------------------
+# field identity: grouping sub-structs are flattened; a field that was regrouped or renamed is found by its role
+# --------------------------------------------------------------------------
+
+OWNERS = ('work_pool_priv', 'work_pool_thread', 'iv_thread')
+# the fields the rules speak about, under the names they have in the property text
+USED = {
+    'work_pool_priv': ('lock', 'ev', 'shutting_down', 'started_threads', 'idle_threads', 'thread_start', 'thread_stop',
+                       'seq_head', 'seq_tail', 'work_done'),
+    'work_pool_thread': ('list', 'kicked', 'kick', 'idle_timer'),
+    'iv_thread': ('list', 'dead', 'start_routine'),
+}
+LIST_MOVE = ('iv_list_splice', 'iv_list_splice_init', 'iv_list_splice_tail', 'iv_list_splice_tail_init',
+             '__iv_list_steal_elements', '__iv_list_splice')
+
+
+def is_group(prog, rec):
+    """a record that only groups fields of its owner: an anonymous struct, or a struct private to a .c file, embedded by value"""
+    if not rec or rec in OWNERS:
+        return False
+    r = prog.records.get(rec)
+    if not r or r.get('union') or 'fields' not in r:
+        return False
+    if rec.startswith('<anon@'):
+        return True
+    return str(r.get('loc') or '').split(':')[0].endswith('.c')
+
+
+def flat_fields(prog, rec, prefix='', depth=0):
+    """the fields of a record with grouping sub-structs flattened (`seq.head`)"""
+    out = []
+    for fl in (prog.records.get(rec) or {}).get('fields', []):
+        sub = fl.get('record')
+        if sub and not fl.get('ptr') and depth < 4 and is_group(prog, sub) and '[' not in str(fl.get('type', '')):
+            out += flat_fields(prog, sub, prefix + fl['name'] + '.', depth + 1)
+        else:
+            out.append(dict(fl, name=prefix + fl['name']))
+    return out
+
+
+def grouped(prog):
+    c = _cache(prog)
+    if 'grouped' not in c:
+        c['grouped'] = any('.' in fl['name'] for R in OWNERS for fl in flat_fields(prog, R))
+    return c['grouped']
+
+
+def norm_expr(prog, x, ren):
+    """x with member chains through grouping sub-structs of the owner records flattened to one step
+    (`pool->seq.head`: field `seq.head` of work_pool_priv) and fields renamed by the table ren."""
+    if isinstance(x, list):
+        return [norm_expr(prog, y, ren) for y in x]
+    if not isinstance(x, dict):
+        return x
+    out = {k: (norm_expr(prog, v, ren) if isinstance(v, (dict, list)) else v) for k, v in x.items()}
+    k = out.get('k')
+    if k == 'member':
+        b = out.get('base')
+        if not out.get('arrow') and isinstance(b, dict) and b.get('k') == 'member' and b.get('record') in OWNERS \
+                and is_group(prog, out.get('record')):
+            out = dict(out, arrow=b['arrow'], base=b['base'], record=b['record'], field=b['field'] + '.' + out['field'])
+        if ren and out.get('record') in OWNERS:
+            c_ = ren.get((out['record'], out['field']))
+            if c_:
+                out = dict(out, field=c_)
+    elif k == 'container_of' and ren and out.get('record') in OWNERS:
+        c_ = ren.get((out['record'], out.get('member')))
+        if c_:
+            out = dict(out, member=c_)
+    return out
+
+
+def norm_event(prog, e):
+    """a copy of an event of a source function (not of a context) with its expressions normalised like a context's"""
+    if 'renames' not in _cache(prog):
+        _derive_renames(prog)
+    ren = _cache(prog).get('renames') or {}
+    if not ren and not grouped(prog):
+        return e
+    return {k: (norm_expr(prog, v, ren) if (isinstance(v, (dict, list)) and k != 'chain') else v) for k, v in e.items()}
+
+
+def normalise_fields(prog, g, ren):
+    for blk in g.blocks.values():
+        for e in blk.events:
+            for k, v in list(e.items()):
+                if isinstance(v, (dict, list)) and k != 'chain':
+                    e[k] = norm_expr(prog, v, ren)
+        if blk.term and blk.term.get('cond') is not None:
+            blk.term = dict(blk.term, cond=norm_expr(prog, blk.term['cond'], ren))
+    for a in ('_h13_al', '_h13_fc', '_h13_arith'):
+        if hasattr(g, a):
+            setattr(g, a, None)
+
+
+def _intlike(fl):
+    if fl.get('record') or fl.get('ptr') or fl.get('fnptr') or '*' in str(fl.get('type', '')) or '[' in str(fl.get('type', '')):
+        return False
+    t = str(fl.get('type', '')).replace('unsigned ', '').replace('signed ', '').replace('volatile ', '').strip()
+    return t in ('int', 'long', 'short', 'char', 'unsigned', 'long long', '_Bool', 'bool', 'size_t', 'ssize_t') \
+        or (t.endswith('_t') and 'int' in t)
+
+
+def _kind(fl):
+    if 'mutex' in str(fl.get('type', '')) or fl.get('record') == 'pthread_mutex_t':
+        return 'mutex'
+    if fl.get('fnptr'):
+        return 'fnptr'
+    if fl.get('record') and not fl.get('ptr'):
+        return fl['record']
+    if _intlike(fl):
+        return 'int'
+    return None
+
+
+def store_delta(e):
+    """net change a store makes to its integer target: +n / -n, None for anything else"""
+    if e['ev'] != 'store':
+        return None
+    op = e.get('op')
+    if op == '++':
+        return 1
+    if op == '--':
+        return -1
+
+    def ival(x):
+        x = strip(x)
+        if isinstance(x, dict) and x.get('k') == 'un' and x.get('op') == '-' and is_int(x.get('e')):
+            return -strip(x['e'])['v']
+        return x['v'] if is_int(x) else None
+    if op in ('+=', '-=') and 'rhs' in e:
+        n = ival(e['rhs'])
+        return None if n is None else (n if op == '+=' else -n)
+    r = strip(e.get('rhs')) if op == '=' and 'rhs' in e else None
+    if isinstance(r, dict) and r.get('k') == 'bin' and r.get('op') in ('+', '-') and canon(r['l']) == canon(e['lhs']):
+        n = ival(r['r'])
+        return None if n is None else (n if r['op'] == '+' else -n)
+    return None
+
+
+def _derive_renames(prog):
+    """{(record, actual flattened field): canonical name} for the fields the rules speak about that do not exist under
+    their name: first a regrouped field that kept its name as the last component (`state.shutting_down`), then the one
+    field that plays the role (by type where the record has one field of the kind, else by what the entry points of
+    the library do with it).  Nothing is derived for names that exist; an ambiguous or missing role stays unresolved
+    (the rules then miss their anchor)."""
+    c = _cache(prog)
+    c['renames'] = {}
+    todo = {}
+    for R in OWNERS:
+        ff = flat_fields(prog, R)
+        names = {fl['name'] for fl in ff}
+        miss = [u for u in USED[R] if u not in names]
+        if miss and ff:
+            todo[R] = (ff, miss)
+    if not todo:
+        return
+    c['deriving'] = True
+    ren = {}
+    try:
+        ctxs = [(r, ctx_of(prog, r)) for r in entry_points(prog)]
+        for R, (ff, miss) in sorted(todo.items()):
+            free = [fl for fl in ff if fl['name'] not in USED[R]]
+            for u in miss:
+                cands = [fl for fl in free if fl['name'].split('.')[-1] == u]
+                if len(cands) != 1:
+                    cands = [fl for fl in free if _plays(prog, ctxs, R, u, fl, ff)]
+                if len(cands) == 1 and (R, cands[0]['name']) not in ren:
+                    ren[(R, cands[0]['name'])] = u
+    finally:
+        c['deriving'] = False
+    for k_ in [k_ for k_ in c if not (isinstance(k_, tuple) and k_[0] == 'ctx') and k_ not in ('grouped', 'donly', 'roots')]:
+        del c[k_]
+    c['renames'] = ren
+    if ren:
+        for k_, g in c.items():
+            if isinstance(k_, tuple) and k_[0] == 'ctx':
+                normalise_fields(prog, g, ren)
+
+
+def _plays(prog, ctxs, R, role, fl, ff):
+    """does field fl of record R play the role of the field the property calls `role`?"""
+    me = (R, fl['name'])
+    kind = _kind(fl)
+    by_type = {('work_pool_priv', 'lock'): 'mutex',
+               ('work_pool_thread', 'list'): 'iv_list_head', ('work_pool_thread', 'kick'): 'iv_event',
+               ('work_pool_thread', 'idle_timer'): 'iv_timer', ('work_pool_thread', 'kicked'): 'int',
+               ('iv_thread', 'list'): 'iv_list_head', ('iv_thread', 'dead'): 'iv_event', ('iv_thread', 'start_routine'): 'fnptr'}
+    if (R, role) in by_type:
+        return kind == by_type[(R, role)] and sum(1 for x in ff if _kind(x) == kind) == 1
+
+    def exported(name):
+        return [(r, g) for (r, g) in ctxs if r.name == name and not r.static]
+
+    def stores(g):
+        return [e for e in g.events() if e['ev'] == 'store' and lvalue_steps(e['lhs']) == [me]]
+
+    def frees_owner(g):
+        return any(is_call(e, 'free') and e.get('args') and obj_record(e['args'][0]) == R for e in g.events())
+    if R != 'work_pool_priv':
+        return False
+    if role == 'ev':
+        if kind != 'iv_event':
+            return False
+        for (r, g) in ctxs:
+            for e in g.events():
+                if e['ev'] == 'store' and 'rhs' in e and lvalue_steps(e['lhs'])[:1] == [('iv_event', 'handler')] and me in lvalue_steps(e['lhs']):
+                    t = func_arg(prog, g, {'args': [e['rhs']], 'fn': e.get('fn')}, 0)
+                    if t is not None and frees_owner(ctx_of(prog, t)):
+                        return True
+        return False
+    if role == 'shutting_down':
+        return kind == 'int' and any(e.get('op') == '=' and is_int(e.get('rhs')) and strip(e['rhs'])['v'] != 0
+                                     for (r, g) in exported('iv_work_pool_put') for e in stores(g))
+    if role == 'started_threads':
+        up = any(store_delta(e) == 1 for (r, g) in ctxs if any(is_call(x, 'iv_thread_create') for x in g.events()) for e in stores(g))
+        down = any(store_delta(e) == -1 for (r, g) in ctxs for e in stores(g))
+        return kind == 'int' and up and down
+    if role in ('seq_tail', 'seq_head'):
+        if kind != 'int':
+            return False
+        sub = {id(g) for (r, g) in exported('iv_work_pool_submit_work')}
+        ups = [(id(g) in sub) for (r, g) in ctxs for e in stores(g) if store_delta(e) == 1]
+        downs = any((store_delta(e) or 0) < 0 for (r, g) in ctxs for e in stores(g))
+        if not ups or downs:
+            return False
+        return any(ups) if role == 'seq_tail' else not any(ups)
+    if role == 'idle_threads':
+        return kind == 'iv_list_head' and any(e['ev'] == 'call' and e.get('callee') in LIST_ON and lm_arg(e, 1) == me
+                                              and (lm_arg(e, 0) or (None,))[0] == 'work_pool_thread' for (r, g) in ctxs for e in g.events())
+    if role == 'work_done':
+        return kind == 'iv_list_head' and any(e['ev'] == 'call' and e.get('callee') in LIST_MOVE and lm_arg(e, 0) == me
+                                              for (r, g) in ctxs if frees_owner(g) for e in g.events())
+    if role in ('thread_start', 'thread_stop'):
+        return kind == 'fnptr' and any(e.get('op') == '=' and 'rhs' in e and last_member(e['rhs']) == ('iv_work_pool', role)
+                                       for (r, g) in ctxs for e in stores(g))
+    return False
+
+
+def scalarise_structs(prog, g):
+    """Scalar replacement of small struct locals that are only ever copied as a whole and accessed field by field
+    (`const struct worker_verdict v = worker_verdict_locked(pool); if (v.exit) ...`: the "locked part" of a function
+    hands its decisions back by value): `v.f` becomes the local `v.f`, `v = w` one assignment per field, an initialiser
+    list one assignment per field (0 for the fields it leaves out).  Returns the number of variables replaced."""
+    def rec_of(v):
+        r = v.get('record') if not v.get('ptr') else None
+        if r is None and not v.get('record'):
+            t = str(v.get('type', '')).replace('const ', '').strip()
+            if t.startswith('struct ') and '*' not in t and '[' not in t:
+                r = t[len('struct '):].strip()
+        return r if (r and r in prog.records and not prog.records[r].get('union')) else None
+
+    def small(r):
+        fl = prog.records[r].get('fields') or []
+        return 0 < len(fl) <= 8 and all(not (f.get('record') and not f.get('ptr')) and '[' not in str(f.get('type', '')) for f in fl)
+    cands, bad = {}, set()
+    for e in g.events():
+        if e['ev'] in ('enter', 'leave'):
+            continue
+        for k_, x in e.items():
+            if not isinstance(x, (dict, list)) or k_ == 'chain':
+                continue
+            for y in walk(x):
+                if y.get('k') == 'var' and y.get('vk') == 'local':
+                    r = rec_of(y)
+                    if r and small(r):
+                        cands.setdefault(y['name'], r)
+        if e['ev'] == 'decl' and e.get('record') and not e.get('ptr') and e.get('record') in prog.records and small(e['record']) \
+                and '[' not in str(e.get('type', '')):
+            cands.setdefault(e['name'], e['record'])
+    if not cands:
+        return 0
+
+    def classify(x, parent_ok):
+        """mark candidates that occur other than as `v.f`, as a whole-copy operand, or in decl/ret"""
+        if isinstance(x, list):
+            for y in x:
+                classify(y, False)
+            return
+        if not isinstance(x, dict):
+            return
+        if x.get('k') == 'var' and x.get('name') in cands and not parent_ok:
+            bad.add(x['name'])
+            return
+        if x.get('k') == 'member' and not x.get('arrow'):
+            b = x.get('base')
+            if isinstance(b, dict) and b.get('k') == 'var' and b.get('name') in cands:
+                return
+        for k_, v in x.items():
+            if isinstance(v, (dict, list)):
+                classify(v, False)
+    for e in g.events():
+        if e['ev'] in ('enter', 'leave'):
+            for y in walk(e.get('args', [])):
+                if y.get('k') == 'var' and y.get('name') in cands:
+                    bad.add(y['name'])
+            continue
+        if e['ev'] == 'ret':
+            v = strip(e.get('value')) if 'value' in e else None
+            if isinstance(v, dict) and v.get('k') == 'var' and v.get('name') in cands and not e.get('chain') is None:
+                continue
+        if e['ev'] == 'load':
+            x = e.get('e')
+            y = x
+            while isinstance(y, dict) and y.get('k') == 'load':
+                y = y['e']
+            if isinstance(y, dict) and y.get('k') == 'var' and y.get('name') in cands:
+                continue
+        if e['ev'] == 'store' and e.get('op') == '=' and 'rhs' in e:
+            l, r = strip(e['lhs']), e['rhs']
+            r0 = r
+            while isinstance(r0, dict) and r0.get('k') in ('load', 'compound') and 'e' in r0:
+                r0 = r0['e']
+            if isinstance(l, dict) and l.get('k') == 'var' and l.get('name') in cands:
+                if isinstance(r0, dict) and ((r0.get('k') == 'var' and r0.get('name') in cands and cands[r0['name']] == cands[l['name']])
+                                             or r0.get('k') == 'init'):
+                    if r0.get('k') == 'init':
+                        classify(r0.get('fields', {}), False)
+                    continue
+                if isinstance(r0, dict) and r0.get('k') == 'member' and r0.get('trecord') == cands[l['name']] \
+                        and not any(y.get('k') in ('call', 'assign', 'incdec', 'stmtexpr', 'cond') for y in walk(r0)):
+                    classify(r0, False)     # `w = pool->seq;`: a copy of a struct that lives in memory
+                    continue
+                bad.add(l['name'])
+                classify(r, False)
+                continue
+        for k_, x in e.items():
+            if isinstance(x, (dict, list)) and k_ != 'chain':
+                classify(x, False)
+    for blk in g.blocks.values():
+        if blk.term and blk.term.get('cond') is not None:
+            classify(blk.term['cond'], False)
+    # a copy partner that is not replaceable spoils the other side
+    ch = True
+    while ch:
+        ch = False
+        for e in g.events():
+            if e['ev'] == 'store' and e.get('op') == '=' and 'rhs' in e:
+                l = strip(e['lhs'])
+                r0 = e['rhs']
+                while isinstance(r0, dict) and r0.get('k') in ('load', 'compound') and 'e' in r0:
+                    r0 = r0['e']
+                if isinstance(l, dict) and l.get('k') == 'var' and isinstance(r0, dict) and r0.get('k') == 'var' \
+                        and l.get('name') in cands and r0.get('name') in cands:
+                    if (l['name'] in bad) != (r0['name'] in bad):
+                        bad |= {l['name'], r0['name']}
+                        ch = True
+    good = {v: r for v, r in cands.items() if v not in bad}
+    if not good:
+        return 0
+
+    def fvar(v, fl):
+        out = {'k': 'var', 'name': '%s.%s' % (v, fl['name']), 'vk': 'local', 'type': fl.get('type')}
+        if fl.get('record'):
+            out['record'] = fl['record']
+            out['ptr'] = bool(fl.get('ptr'))
+        return out
+
+    def fields(r):
+        return prog.records[r]['fields']
+
+    def rw(x):
+        if isinstance(x, list):
+            return [rw(y) for y in x]
+        if not isinstance(x, dict):
+            return x
+        if x.get('k') == 'member' and not x.get('arrow'):
+            b = x.get('base')
+            if isinstance(b, dict) and b.get('k') == 'var' and b.get('name') in good:
+                fl = next((f for f in fields(good[b['name']]) if f['name'] == x['field']), None)
+                if fl is not None:
+                    return fvar(b['name'], fl)
+        return {k: (rw(v) if isinstance(v, (dict, list)) else v) for k, v in x.items()}
+    for blk in g.blocks.values():
+        evs = []
+        for e in blk.events:
+            if e['ev'] == 'decl' and e.get('name') in good:
+                for fl in fields(good[e['name']]):
+                    evs.append({'ev': 'decl', 'name': '%s.%s' % (e['name'], fl['name']), 'type': fl.get('type'), 'loc': e.get('loc'),
+                                'chain': e.get('chain', []), 'fn': e.get('fn')})
+                init = e.get('init')
+                if isinstance(init, dict) and init.get('k') == 'init':
+                    for fl in fields(good[e['name']]):
+                        val = (init.get('fields') or {}).get(fl['name'], {'k': 'int', 'v': 0})
+                        evs.append({'ev': 'store', 'op': '=', 'lhs': fvar(e['name'], fl), 'rhs': rw(val), 'loc': e.get('loc'),
+                                    'chain': e.get('chain', []), 'fn': e.get('fn')})
+                continue
+            if e['ev'] == 'load':
+                y = e.get('e')
+                while isinstance(y, dict) and y.get('k') == 'load':
+                    y = y['e']
+                if isinstance(y, dict) and y.get('k') == 'var' and y.get('name') in good:
+                    continue
+            if e['ev'] == 'store' and e.get('op') == '=' and 'rhs' in e:
+                l = strip(e['lhs'])
+                r0 = e['rhs']
+                while isinstance(r0, dict) and r0.get('k') in ('load', 'compound') and 'e' in r0:
+                    r0 = r0['e']
+                if isinstance(l, dict) and l.get('k') == 'var' and l.get('name') in good:
+                    for fl in fields(good[l['name']]):
+                        if isinstance(r0, dict) and r0.get('k') == 'init':
+                            val = rw((r0.get('fields') or {}).get(fl['name'], {'k': 'int', 'v': 0}))
+                        elif isinstance(r0, dict) and r0.get('k') == 'member':
+                            val = {'k': 'load', 'e': {'k': 'member', 'arrow': False, 'base': rw(r0), 'record': good[l['name']],
+                                                      'field': fl['name'], 'type': fl.get('type')}}
+                        else:
+                            val = {'k': 'load', 'e': fvar(r0['name'], fl)}
+                        evs.append(dict({k_: v_ for k_, v_ in e.items() if k_ not in ('lhs', 'rhs')}, lhs=fvar(l['name'], fl), rhs=val))
+                    continue
+            if e['ev'] == 'ret' and 'value' in e:
+                v = strip(e['value'])
+                if isinstance(v, dict) and v.get('k') == 'var' and v.get('name') in good:
+                    evs.append({k_: v_ for k_, v_ in e.items() if k_ != 'value'})
+                    continue
+            evs.append({k_: (rw(v_) if (isinstance(v_, (dict, list)) and k_ != 'chain') else v_) for k_, v_ in e.items()})
+        blk.events = evs
+        if blk.term and blk.term.get('cond') is not None:
+            blk.term = dict(blk.term, cond=rw(blk.term['cond']))
+    for b in g.blocks.values():
+        for i, e in enumerate(b.events):
+            e['_b'] = b.id
+            e['_i'] = i
+    for a in ('_h13_al', '_h13_fc', '_h13_live', '_h13_arith'):
+        if hasattr(g, a):
+            setattr(g, a, None)
+    return len(good)
+
+
+def expand_struct_stores(prog, g):
+    """`*thr = (struct T) { .dead = { .cookie = thr, .handler = h }, .tid = 0, ... };` is one assignment per (leaf)
+    field: `thr->dead.cookie = thr; thr->dead.handler = h; ...` (in the order of the record's fields)"""
+    def init_of(x):
+        while isinstance(x, dict) and x.get('k') in ('load', 'compound', 'cast') and 'e' in x:
+            x = x['e']
+        return x if (isinstance(x, dict) and x.get('k') == 'init' and x.get('record') in prog.records and isinstance(x.get('fields'), dict)) else None
+    n = 0
+    for blk in g.blocks.values():
+        if not any(e['ev'] == 'store' and e.get('op') == '=' and 'rhs' in e and init_of(e['rhs']) is not None for e in blk.events):
+            continue
+        evs = []
+        for e in blk.events:
+            ini = init_of(e['rhs']) if (e['ev'] == 'store' and e.get('op') == '=' and 'rhs' in e) else None
+            l = e.get('lhs') if ini is not None else None
+            l0 = l
+            while isinstance(l0, dict) and l0.get('k') in ('cast',) and 'e' in l0:
+                l0 = l0['e']
+            if ini is None or not (isinstance(l0, dict) and (l0.get('k') == 'deref' or l0.get('k') == 'member')):
+                evs.append(e)
+                continue
+
+            def emit(base_lhs, arrow, ptr_expr, rec, init):
+                fls = {f['name']: f for f in (prog.records.get(rec) or {}).get('fields', [])}
+                for fname in [f['name'] for f in (prog.records.get(rec) or {}).get('fields', [])]:
+                    if fname not in init['fields']:
+                        continue
+                    val = init['fields'][fname]
+                    fl = fls[fname]
+                    m = {'k': 'member', 'arrow': arrow, 'base': ptr_expr if arrow else base_lhs, 'record': rec, 'field': fname, 'type': fl.get('type')}
+                    if fl.get('record'):
+                        m['trecord'] = fl['record']
+                        m['tptr'] = bool(fl.get('ptr'))
+                    sub = init_of(val)
+                    if sub is not None and fl.get('record') and not fl.get('ptr'):
+                        emit(m, False, None, fl['record'], sub)
+                    else:
+                        evs.append(dict({k_: v_ for k_, v_ in e.items() if k_ not in ('lhs', 'rhs')}, lhs=m, rhs=val))
+            if l0.get('k') == 'deref':
+                emit(None, True, l0['e'], ini['record'], ini)
+            else:
+                emit(l0, False, None, ini['record'], ini)
+            n += 1
+        blk.events = evs
+    if n:
+        for b in g.blocks.values():
+            for i, e in enumerate(b.events):
+                e['_b'] = b.id
+                e['_i'] = i
+    return n
+
+
+def fold_fn_deref(g):
+    """`(*fp)(args)` calls fp"""
+    n = 0
+    for e in g.events():
+        if e['ev'] == 'call' and 'fnexpr' in e:
+            x = e['fnexpr']
+            y = x
+            while isinstance(y, dict) and y.get('k') in ('load', 'cast') and 'e' in y:
+                y = y['e']
+            # only when what is dereferenced is the function pointer itself (the result has function type), not a
+            # pointer to a function pointer (`(*hookp)(arg)` with hookp = &pool->thread_stop)
+            if isinstance(y, dict) and y.get('k') == 'deref' and isinstance(y.get('e'), dict):
+                t = str(strip(y['e']).get('type', '**') if isinstance(strip(y['e']), dict) else '**').replace('const', '').replace('volatile', '').replace(' ', '')
+                if '(**' in t or (t.endswith('*') and '(*' not in t):
+                    continue
+                e['fnexpr'] = y['e']
+                n += 1
+    return n
+
+
+def fold_deref_addr(g):
+    """`*(&x)` reads/writes x: an out-parameter of an inlined helper (`*thrp = thr` with thrp = &thr) is a plain
+    assignment to the caller's local.  core.simplify does this when nothing (a load) sits between the two operators."""
+    n_ = [0]
+
+    def rb(x):
+        if isinstance(x, list):
+            return [rb(y) for y in x]
+        if not isinstance(x, dict):
+            return x
+        out = {k: (rb(v) if isinstance(v, (dict, list)) else v) for k, v in x.items()}
+        if out.get('k') == 'deref':
+            b = out.get('e')
+            while isinstance(b, dict) and b.get('k') == 'load' and 'e' in b:
+                b = b['e']
+            if isinstance(b, dict) and b.get('k') == 'addr' and isinstance(b.get('e'), dict):
+                n_[0] += 1
+                return b['e']
+        return out
+    if not any(x.get('k') == 'deref' for e in g.events() for x in walk(e)):
+        return 0
+    for blk in g.blocks.values():
+        for e in blk.events:
+            for k, v in list(e.items()):
+                if isinstance(v, (dict, list)) and k != 'chain':
+                    e[k] = rb(v)
+        if blk.term and blk.term.get('cond') is not None:
+            blk.term = dict(blk.term, cond=rb(blk.term['cond']))
+    return n_[0]
+
+
+def resolve_ghost_calls(g):
+    """The inliner replaces the expression of an inlined call by its result variable only in the rest of the *source
+    block* of the call; when the value is used in another block (`return a && !helper(p);`, `x = helper(p) ? A : B;`
+    -- the CFG evaluates `&&` and `?:` in blocks of their own) the later expression still spells the call.  Such a
+    "ghost" call is replaced by the result variable of the inlined instance that reaches it."""
+    leaves = [e for e in g.events() if e['ev'] == 'leave' and e.get('retvar') and e.get('targets')]
+    if not leaves:
+        return 0
+    names = {}
+    for e in leaves:
+        names[id(e)] = (e['targets'][0].split(':')[-1], e.get('loc'))
+    keys = set(names.values())
+
+    def ghost(x):
+        return x.get('k') == 'call' and (x.get('callee'), x.get('loc')) in keys
+    if not any(ghost(x) for e in g.events() if e['ev'] not in ('enter', 'leave') for x in walk(e)) \
+            and not any(blk.term and blk.term.get('cond') is not None and any(ghost(x) for x in walk(blk.term['cond'])) for blk in g.blocks.values()):
+        return 0
+
+    # (a path on which the call was not made did not need its value: `a && !helper(p)` with a false, so any instance that
+    # reaches the use will do, provided all that reach it are the same variable)
+    def tr(e, S):
+        if id(e) in names:
+            k_ = names[id(e)]
+            return frozenset(x for x in S if x[0] != k_) | {(k_, e['retvar'], str(e.get('rettype') or ''))}
+        return S
+    _, ev_in = forward(g, frozenset(), tr, lambda a, b: a | b)
+    n_ = [0]
+
+    def rewrite(x, S):
+        m, bad = {}, set()
+        for (k_, rv, ty) in S:
+            if k_ in m and m[k_][0] != rv:
+                bad.add(k_)
+            m[k_] = (rv, ty)
+        for k_ in bad:
+            m.pop(k_, None)
+
+        def rep(nd):
+            if ghost(nd) and (nd.get('callee'), nd.get('loc')) in m:
+                rv, ty = m[(nd.get('callee'), nd.get('loc'))]
+                n_[0] += 1
+                return {'k': 'load', 'e': {'k': 'var', 'name': rv, 'vk': 'local', 'type': ty}}
+            return None
+        return subst(x, rep)
+    for bid, blk in g.blocks.items():
+        for i, e in enumerate(blk.events):
+            S = ev_in.get((bid, i))
+            if not S or e['ev'] in ('enter', 'leave', 'call'):
+                continue
+            for key in ('rhs', 'args', 'value', 'e'):
+                if key in e and isinstance(e[key], (dict, list)) and any(ghost(y) for y in walk(e[key])):
+                    e[key] = rewrite(e[key], S)
+        S = ev_in.get((bid, len(blk.events)))
+        if S and blk.term and blk.term.get('cond') is not None and any(ghost(y) for y in walk(blk.term['cond'])):
+            blk.term = dict(blk.term, cond=rewrite(blk.term['cond'], S))
+    return n_[0]
+
+
+def fold_builtin_expect(g):
+    """`likely(x)` / `unlikely(x)` (`__builtin_expect(!!(x), c)`) have the value of their first argument"""
+    if not any(x.get('k') == 'call' and x.get('callee') == '__builtin_expect' for e in g.events() for x in walk(e)) \
+            and not any(blk.term and blk.term.get('cond') is not None and
+                        any(x.get('k') == 'call' and x.get('callee') == '__builtin_expect' for x in walk(blk.term['cond'])) for blk in g.blocks.values()):
+        return 0
+    n_ = [0]
+
+    def rb(x):
+        if isinstance(x, list):
+            return [rb(y) for y in x]
+        if not isinstance(x, dict):
+            return x
+        out = {k: (rb(v) if isinstance(v, (dict, list)) else v) for k, v in x.items()}
+        if out.get('k') == 'call' and out.get('callee') == '__builtin_expect' and out.get('args'):
+            n_[0] += 1
+            return out['args'][0]
+        return out
+    for blk in g.blocks.values():
+        evs = []
+        for e in blk.events:
+            if e['ev'] == 'call' and e.get('callee') == '__builtin_expect':
+                continue                     # the evaluation itself: no effect
+            for k, v in list(e.items()):
+                if isinstance(v, (dict, list)) and k != 'chain':
+                    e[k] = rb(v)
+            evs.append(e)
+        if len(evs) != len(blk.events):
+            blk.events = evs
+        if blk.term and blk.term.get('cond') is not None:
+            blk.term = dict(blk.term, cond=rb(blk.term['cond']))
+    for b in g.blocks.values():
+        for i, e in enumerate(b.events):
+            e['_b'] = b.id
+            e['_i'] = i
+    return n_[0]
+
+
+def switch_on_bool(g):
+    """`switch (!!c) { case 1: A; break; default: B; }` is `if (c) A else B`: a switch whose controlling expression is a
+    truth value (comparison, `!`, `&&`, `||`) and whose cases are 0 / 1 / default becomes a two-way branch on it."""
+    n = 0
+    for blk in g.blocks.values():
+        t = blk.term
+        if not (t and t.get('cls') == 'SwitchStmt' and t.get('cond') is not None and len(t.get('cases', [])) == len(blk.succ)):
+            continue
+        c = strip(t['cond'])
+        if not (isinstance(c, dict) and ((c.get('k') == 'bin' and c.get('op') in ('==', '!=', '<', '>', '<=', '>=', '&&', '||'))
+                                         or (c.get('k') == 'un' and c.get('op') == '!'))):
+            continue
+        cases = t['cases']
+        if any(not (cv in (0, 1, 'default')) or isinstance(cv, bool) for cv in cases):
+            continue
+        by = {}
+        for si, cv in enumerate(cases):
+            by.setdefault(cv, blk.succ[si])
+        tru = by.get(1, by.get('default'))
+        fal = by.get(0, by.get('default'))
+        if tru is None or fal is None:
+            continue
+        blk.term = {'cls': 'IfStmt', 'cond': c, 'loc': t.get('loc', ''), 'was': 'SwitchStmt'}
+        blk.succ = [tru, fal]
+        n += 1
+    if n:
+        g._preds = None
+    return n
+
+
+def recover_containers(prog, g):
+    """Open-coded container_of spread over several statements
+    (`char *base = (char *)ev - offsetof(struct T, m); return (struct T *)base;`) is made a container_of node at the
+    store that gives the result its record type; afterwards, where `T = container_of(P, R, m)` is still valid, a read
+    of the member pointer P is a read of `&T->m` (`iv_event_unregister(dead)` with thr = container_of(dead, iv_thread,
+    dead) unregisters `&thr->dead`).  Only locals with a single definition that are never address-taken take part."""
+    taken, ndefs, dstore = set(), {}, {}
+    for e in g.events():
+        for x in (walk(e) if e['ev'] not in ('enter', 'load') else ()):
+            if x.get('k') == 'addr':
+                v = strip(x['e'])
+                if isinstance(v, dict) and v.get('k') == 'var':
+                    taken.add(v['name'])
+        if e['ev'] == 'store':
+            l = strip(e['lhs'])
+            if isinstance(l, dict) and l.get('k') == 'var':
+                ndefs[l['name']] = ndefs.get(l['name'], 0) + 1
+                dstore[l['name']] = e
+    single = {v for v, n in ndefs.items() if n == 1 and v not in taken}
+
+    def arith(x, at, depth=0):
+        """(pointer variable node, byte offset subtracted, event that computed it) when x is `P - c` through casts and
+        single-definition copies; at: the event in which x occurs"""
+        x = strip(x)
+        if not isinstance(x, dict) or depth > 4:
+            return None
+        if x.get('k') == 'bin' and x.get('op') == '-' and _intval(x.get('r')) is not None:
+            p = strip(x['l'])
+            if isinstance(p, dict) and p.get('k') == 'var' and p.get('vk') in ('local', 'param'):
+                return (p, _intval(x['r']), at)
+            return None
+        if x.get('k') == 'var' and x['name'] in single and x.get('vk') == 'local':
+            d = dstore[x['name']]
+            if d.get('op') == '=' and 'rhs' in d:
+                return arith(d['rhs'], d, depth + 1)
+        return None
+
+    def unchanged_between(name, e1, e2):
+        """e2 follows e1 in straight-line code and nothing in between assigns the variable"""
+        if e1 is e2:
+            return True
+        b, i = e1['_b'], e1['_i'] + 1
+        for _ in range(64):
+            blk = g.blocks.get(b)
+            if blk is None:
+                return False
+            for e in blk.events[i:]:
+                if e is e2:
+                    return True
+                if e['ev'] == 'store' and strip(e['lhs']).get('k') == 'var' and strip(e['lhs'])['name'] == name:
+                    return False
+            if len(blk.succ) != 1 or blk.succ[0] is None:
+                return False
+            b, i = blk.succ[0], 0
+        return False
+
+    def field_at(rec, off, prec):
+        for fl in (prog.records.get(rec) or {}).get('fields', []):
+            if fl.get('offset') == off and not fl.get('ptr') and (prec is None or fl.get('record') == prec):
+                return fl['name']
+        return None
+    n = 0
+    avail_defs = []
+    for e in g.events():
+        if e['ev'] == 'store' and e.get('op') == '=' and 'rhs' in e:
+            l = strip(e['lhs'])
+            lrec = None
+            if isinstance(l, dict) and l.get('k') == 'var':
+                lrec = l.get('record') if l.get('ptr') else None
+                t_ = str(l.get('type', '')).strip()
+                if lrec is None and t_.startswith('struct ') and t_.endswith('*') and t_.count('*') == 1:
+                    lrec = t_[len('struct '):-1].strip()          # `$retN` carries only the type
+            if lrec and lrec in prog.records and l['name'] in single:
+                r0 = strip(e['rhs'])
+                if isinstance(r0, dict) and r0.get('k') == 'container_of':
+                    continue
+                a = arith(e['rhs'], e)
+                l = dict(l, record=lrec)
+                if a and a[1] > 0 or (a and a[0].get('record') and a[0].get('record') != l['record']):
+                    m = field_at(l['record'], a[1], a[0].get('record'))
+                    if m is not None and a[0]['name'] not in taken and (ndefs.get(a[0]['name'], 0) <= 1 or unchanged_between(a[0]['name'], a[2], e)):
+                        e['rhs'] = {'k': 'container_of', 'record': l['record'], 'member': m, 'e': {'k': 'load', 'e': dict(a[0])}, '_open': True}
+                        n += 1
+    # inverse: P is &T->m while T = container_of(P, R, m) holds (T and P have one definition each)
+    inv = {}
+    for e in g.events():
+        if e['ev'] == 'store' and e.get('op') == '=' and 'rhs' in e:
+            l, r = strip(e['lhs']), strip(e['rhs'])
+            if isinstance(l, dict) and l.get('k') == 'var' and l['name'] in single and l.get('vk') == 'local' \
+                    and isinstance(r, dict) and r.get('k') == 'container_of':
+                p = strip(r.get('e'))
+                if isinstance(p, dict) and p.get('k') == 'var' and p['name'] not in taken and ndefs.get(p['name'], 0) <= 1 \
+                        and p.get('vk') in ('local', 'param') and p['name'] not in inv:
+                    inv[p['name']] = (e, l, r)
+                    e['_keep'] = True          # T stays a variable (substitute_ptr_locals would put the container_of back)
+    if inv:
+        # the definition of T must dominate the use: a forward must-analysis of "T = container_of(P..) was executed"
+        def tr(e, S):
+            for pn, (d, l, r) in inv.items():
+                if e is d:
+                    S = S | {pn}
+            return S
+        _, ev_in = forward(g, frozenset(), tr, lambda a_, b_: a_ & b_)
+
+        def rewrite(x, S):
+            def rep(nd):
+                if nd.get('k') == 'load':
+                    inner = nd.get('e')
+                    if isinstance(inner, dict) and inner.get('k') == 'var' and inner['name'] in S:
+                        (d, l, r) = inv[inner['name']]
+                        return {'k': 'addr', 'e': {'k': 'member', 'arrow': True, 'base': {'k': 'load', 'e': dict(l)},
+                                                   'record': r['record'], 'field': r['member'], 'trecord': inner.get('record')},
+                                '_was': inner['name']}
+                return None
+            return subst(x, rep)
+        for bid, blk in g.blocks.items():
+            for i, e in enumerate(blk.events):
+                S = ev_in.get((bid, i))
+                if not S or e['ev'] == 'load' or any(e is d for (d, _, _) in inv.values()):
+                    continue
+                for key in ('rhs', 'args', 'fnexpr', 'value'):
+                    if key in e and any(y.get('k') == 'var' and y.get('name') in S for y in walk(e[key])):
+                        e[key] = rewrite(e[key], S)
+                        n += 1
+    return n
+
+
+def was_of(x):
+    """the local whose read copy propagation replaced by the expression x (looked for on x and on its load/cast wrappers)"""
+    while isinstance(x, dict):
+        if x.get('_was') is not None:
+            return x['_was']
+        if x.get('k') in ('load', 'cast', 'stmtexpr') and 'e' in x:
+            x = x['e']
+        else:
+            break
+    return None
+
+
+def obj_record(x):
+    """record of the object a pointer expression denotes: a typed variable, or container_of(...) (also where a local
+    that held it was substituted)"""
+    x = strip(x)
+    if isinstance(x, dict) and x.get('k') == 'var':
+        return x.get('record')
+    if isinstance(x, dict) and x.get('k') == 'container_of':
+        return x.get('record')
+    return None
+
+
+def retype_untyped_pointers(g):
+    """A `void *` variable that is only ever dereferenced as one record type (`iv_thread_reap(_thr, 1)` with the handler's
+    `void *_thr` substituted for the helper's typed parameter) is a pointer to that record: its reads get the record
+    annotation that typed variables carry, so that `free(_thr)` is recognised as the release of that object."""
+    recs, nodes = {}, {}
+    for e in g.events():
+        for x in walk(e):
+            if x.get('k') == 'var' and x.get('vk') in ('local', 'param') and not x.get('record'):
+                nodes.setdefault(x['name'], []).append(x)
+            elif x.get('k') == 'member' and x.get('arrow') and x.get('record'):
+                b = strip(x.get('base'))
+                if isinstance(b, dict) and b.get('k') == 'var' and not b.get('record'):
+                    recs.setdefault(b['name'], set()).add(x['record'])
+    n = 0
+    for name, rs in recs.items():
+        if len(rs) == 1 and 'void' in str((nodes.get(name) or [{}])[0].get('type', '')):
+            for x in nodes.get(name, ()):
+                x['record'] = next(iter(rs))
+                x['ptr'] = True
+                n += 1
+    return n
+
+
+def fold_const_tables(prog, g):
+    """a read of an element of a const static table / struct of functions with a constant index (`ops.kick`,
+    `steps[2]`) is the function named in the initialiser: `thr->kick.handler = ops->kick` installs that function"""
+    if prog is None:
+        return 0
+    n_ = [0]
+
+    def rb(x, e):
+        if isinstance(x, list):
+            return [rb(y, e) for y in x]
+        if not isinstance(x, dict):
+            return x
+        out = {k: (rb(v, e) if isinstance(v, (dict, list)) else v) for k, v in x.items()}
+        if out.get('k') == 'load':
+            m = out.get('e')
+            if isinstance(m, dict) and m.get('k') in ('member', 'index'):
+                t = dispatch_table(prog, g, e, m)
+                if t:
+                    key = m.get('field') if m['k'] == 'member' else (strip(m['idx'])['v'] if is_int(m.get('idx')) else None)
+                    if key in t:
+                        n_[0] += 1
+                        return {'k': 'var', 'name': t[key], 'vk': 'func'}
+        return out
+    cands = set()
+    for key, gl in prog.globals.items():
+        if isinstance(gl, dict) and isinstance(gl.get('init'), dict) and 'const' in str(gl.get('type', '')):
+            cands.add(gl.get('name'))
+    if not any(x.get('k') == 'var' and x.get('vk') in ('global', 'staticlocal') and x.get('name') in cands for e in g.events() for x in walk(e)):
+        return 0
+    for blk in g.blocks.values():
+        for e in blk.events:
+            if e['ev'] == 'call' and 'fnexpr' in e:
+                # the callee expression itself is resolved by partition_values (the call is entered)
+                for k, v in list(e.items()):
+                    if isinstance(v, (dict, list)) and k not in ('chain', 'fnexpr'):
+                        e[k] = rb(v, e)
+                continue
+            for k, v in list(e.items()):
+                if isinstance(v, (dict, list)) and k != 'chain':
+                    e[k] = rb(v, e)
+    return n_[0]
 
 
 def substitute_ptr_locals(g):
@@ -48,7 +970,7 @@ def substitute_ptr_locals(g):
     reads was re-assigned (pointer fields it reads through must not be written anywhere in the context)."""
     taken, stored = set(), set()
     for e in g.events():
-        for x in walk(e):
+        for x in (walk(e) if e['ev'] not in ('enter', 'load') else ()):     # 'enter' only records the arguments of an inlined call
             if x.get('k') == 'addr':
                 v = strip(x['e'])
                 if isinstance(v, dict) and v.get('k') == 'var':
@@ -56,11 +978,20 @@ def substitute_ptr_locals(g):
         if e['ev'] == 'store':
             stored |= set(lvalue_steps(e['lhs']))
 
+    def is_listq(r):
+        return isinstance(r, dict) and r.get('k') == 'call' and r.get('callee') == 'iv_list_empty' and len(r.get('args', [])) == 1 \
+            and isinstance(strip(r['args'][0]), dict) and strip(r['args'][0]).get('k') == 'addr' \
+            and not any(y.get('k') in ('call', 'assign', 'incdec', 'stmtexpr', 'cond') for y in walk(r['args'][0]))
+
     def usable(name, rhs):
         r = strip(rhs)
+        if isinstance(r, dict) and r.get('k') == 'var' and r.get('vk') == 'func':
+            return True                       # `handler_fn died = iv_thread_died;`: the local is that function
+        if is_listq(r):
+            return True                       # `e = iv_list_empty(&X)`: valid until a list is written (see tr)
         if not (isinstance(r, dict) and r.get('k') in ('addr', 'container_of')):
             return False
-        if r.get('k') == 'addr' and strip(r['e']).get('k') == 'var':
+        if r.get('k') == 'addr' and strip(r['e']).get('k') == 'var' and strip(r['e']).get('vk') not in ('global', 'staticlocal'):
             return False                      # &local: not a path into an object
         for y in walk(rhs):
             k = y.get('k')
@@ -74,13 +1005,40 @@ def substitute_ptr_locals(g):
                     return False
         return True
 
-    def defn(e):
-        if e['ev'] == 'store' and e.get('op') == '=' and 'rhs' in e:
+    # core.copy_propagate spells a read of a caching local as the access path it cached (`&pool->idle_threads` becomes
+    # `&this->priv->idle_threads`, annotated _was=pool).  For an *address* kept in a local that makes the address depend
+    # on memory that may be written later (`this->priv = NULL`): restore the read of the local when it has one definition.
+    ndefs, protos = {}, {}
+    for e in g.events():
+        if e['ev'] == 'store':
             l = strip(e['lhs'])
-            if isinstance(l, dict) and l.get('k') == 'var' and l.get('vk') == 'local' and l['name'] not in taken and usable(l['name'], e['rhs']):
-                reads = frozenset(y['name'] for y in walk(e['rhs']) if y.get('k') == 'var' and y.get('vk') != 'func')
-                return (l['name'], json.dumps(strip(e['rhs']), sort_keys=True, default=str), reads)
-        return None
+            if isinstance(l, dict) and l.get('k') == 'var':
+                ndefs[l['name']] = ndefs.get(l['name'], 0) + 1
+                protos[l['name']] = l
+
+    def restore(x):
+        def rep(nd):
+            w = nd.get('_was')
+            if w is not None and nd.get('k') in ('load', 'member') and ndefs.get(w) == 1 and w not in taken and protos[w].get('vk') == 'local':
+                return {'k': 'load', 'e': {k_: v_ for k_, v_ in protos[w].items() if k_ != '_was'}}
+            return None
+        return subst(x, rep) if any('_was' in y for y in walk(x)) else x
+    dcache = {}
+
+    def defn(e):
+        if id(e) in dcache:
+            return dcache[id(e)]
+        out = None
+        if e['ev'] == 'store' and e.get('op') == '=' and 'rhs' in e and not e.get('_keep'):
+            l = strip(e['lhs'])
+            if isinstance(l, dict) and l.get('k') == 'var' and l.get('vk') == 'local' and l['name'] not in taken:
+                r0 = strip(e['rhs'])
+                rhs = restore(e['rhs']) if (isinstance(r0, dict) and r0.get('k') in ('addr', 'container_of')) else e['rhs']
+                if usable(l['name'], rhs):
+                    reads = frozenset(y['name'] for y in walk(rhs) if y.get('k') == 'var' and y.get('vk') != 'func')
+                    out = (l['name'], json.dumps(strip(rhs), sort_keys=True, default=str), reads)
+        dcache[id(e)] = out
+        return out
     if not any(defn(e) for e in g.events()):
         return 0
 
@@ -89,6 +1047,17 @@ def substitute_ptr_locals(g):
             l = strip(e['lhs'])
             if isinstance(l, dict) and l.get('k') == 'var':
                 S = frozenset(x for x in S if x[0] != l['name'] and l['name'] not in x[2])
+            elif any(st_[0] == 'iv_list_head' for st_ in lvalue_steps(e['lhs'])) or (isinstance(l, dict) and l.get('k') in ('deref', 'index')):
+                S = frozenset(x for x in S if '"iv_list_empty"' not in x[1])
+        elif e['ev'] == 'call' and (e.get('callee') not in PURE_CALLS or e.get('callee') is None) and any('"iv_list_empty"' in x[1] for x in S):
+            # anything that is not known to be pure may relink a list (list primitives, callbacks, unlock lets others in)
+            S = frozenset(x for x in S if '"iv_list_empty"' not in x[1])
+            for a_ in e.get('args', []):
+                a_ = strip(a_)
+                if isinstance(a_, dict) and a_.get('k') == 'addr':
+                    v = strip(a_['e'])
+                    if isinstance(v, dict) and v.get('k') == 'var':
+                        S = frozenset(x for x in S if x[0] != v['name'] and v['name'] not in x[2])
         elif e['ev'] == 'decl':
             S = frozenset(x for x in S if x[0] != e['name'] and e['name'] not in x[2])
         elif e['ev'] == 'call':
@@ -141,6 +1110,807 @@ def substitute_ptr_locals(g):
     return n_[0]
 
 
+class _Reinliner(Inliner):
+    """Inliner whose instance numbers (`name@N`, `$retN`) continue after those of an earlier round"""
+
+    def __init__(self, prog, offset, **kw):
+        Inliner.__init__(self, prog, **kw)
+        self._offset = offset
+
+    def _emit(self, f, ren, chain, active, depth, retvar):
+        if depth == 0:
+            self.instances = self._offset
+        return Inliner._emit(self, f, ren, chain, active, depth, retvar)
+
+
+def enter_resolved_calls(prog, g, rnd):
+    """Indirect calls of g whose target partition_values() found are entered like direct calls of that function
+    (static targets are inlined, exported ones become plain calls by name).  None when there is nothing to do."""
+    todo = [e for e in g.events() if e['ev'] == 'call' and e.get('_target') and 'fnexpr' in e]
+    if not todo:
+        return None
+    for e in todo:
+        e['callee'] = e.pop('_target')
+        e['_via'] = e.pop('fnexpr')
+        if e.get('used'):
+            # the value of the call is used by a later event of the block (`return finish(...)`): the expression there must
+            # name the callee too, so that the inliner replaces it by the result variable
+            blk = g.blocks.get(e['_b'])
+            def rep(nd, e=e):
+                if nd.get('k') == 'call' and 'fnexpr' in nd and nd.get('loc') == e.get('loc'):
+                    m = {k_: v_ for k_, v_ in nd.items() if k_ != 'fnexpr'}
+                    m['callee'] = e['callee']
+                    return m
+                return None
+            for x in (blk.events if blk else ()):
+                if x is e:
+                    continue
+                for k_ in ('rhs', 'args', 'value', 'e', 'lhs'):
+                    if k_ in x and isinstance(x[k_], (dict, list)) and any(y.get('k') == 'call' and 'fnexpr' in y and y.get('loc') == e.get('loc') for y in walk(x[k_])):
+                        x[k_] = subst(x[k_], rep)
+            if blk is not None and blk.term and blk.term.get('cond') is not None:
+                blk.term = dict(blk.term, cond=subst(blk.term['cond'], rep))
+    root = getattr(g, 'inlined_from', None) or g
+    while getattr(root, 'inlined_from', None) is not None:
+        root = root.inlined_from
+    g2 = _Reinliner(prog, 1000 * rnd, stop=lambda t: not t.static).inline(g)
+    g2.inlined_from = root
+    return g2
+
+
+def dispatch_table(prog, fn, e, x):
+    """{index or field: function name} of the const static table / struct of functions the callee expression x selects from"""
+    if x.get('k') == 'index' or (x.get('k') == 'member' and not x.get('arrow')):
+        b = x.get('base')
+        while isinstance(b, dict) and b.get('k') == 'load':
+            b = b.get('e')
+    else:
+        return None
+    if not (isinstance(b, dict) and b.get('k') == 'var' and b.get('vk') in ('global', 'staticlocal')):
+        return None
+    origin = prog.funcs.get(e.get('fn')) if e.get('fn') else None
+    u = prog.unit_of(origin or fn)
+    g = prog.global_for(u, b['name']) if u else prog.globals.get(b['name'])
+    if not isinstance(g, dict) or 'const' not in str(g.get('type', '')):
+        return None
+    init = g.get('init')
+    if not (isinstance(init, dict) and init.get('k') == 'init'):
+        return None
+
+    def fname(v):
+        v = strip(v)
+        if isinstance(v, dict) and v.get('k') == 'addr':
+            v = strip(v['e'])
+        return v['name'] if isinstance(v, dict) and v.get('k') == 'var' and v.get('vk') == 'func' else None
+    if 'elems' in init:
+        out = {i: fname(v) for i, v in enumerate(init['elems'])}
+    elif 'fields' in init:
+        out = {k_: fname(v) for k_, v in init['fields'].items()}
+    else:
+        return None
+    return {k_: v for k_, v in out.items() if v}
+
+
+def dispatch_target(prog, fn, e, st=None):
+    """name of the function an indirect call event enters when the program text decides that: a call through a const
+    static table of functions with a known index (`step[next](thr)`), through a member of a const static struct of
+    functions (`ops.die(thr)`), or through a local that is known to hold a function (st: known values of locals)."""
+    if e['ev'] != 'call' or 'fnexpr' not in e:
+        return None
+    x = strip(e['fnexpr'])
+    if not isinstance(x, dict):
+        return None
+    if x.get('k') == 'var':
+        if x.get('vk') == 'func':
+            return x['name']
+        v = (st or {}).get(x['name'])
+        return v[1] if isinstance(v, tuple) and v[0] == 'F' else None
+    if prog is None:
+        return None
+    tbl = dispatch_table(prog, fn, e, x)
+    if tbl is None:
+        return None
+    if x.get('k') == 'index':
+        i = strip(x['idx'])
+        n = None
+        if is_int(i):
+            n = i['v']
+        elif isinstance(i, dict) and i.get('k') == 'var':
+            v = (st or {}).get(i['name'])
+            n = v[1] if isinstance(v, tuple) and v[0] == 'I' else (0 if v == 'Z' else None)
+        return tbl.get(n) if n is not None else None
+    return tbl.get(x.get('field'))
+
+
+def dispatch_vars(prog, fn):
+    """locals that select the target of an indirect call: function-pointer locals that are called, index locals of
+    calls through a const table of functions"""
+    out = set()
+    for e in fn.events():
+        if e['ev'] == 'call' and 'fnexpr' in e:
+            x = strip(e['fnexpr'])
+            if isinstance(x, dict) and x.get('k') == 'var' and x.get('vk') in ('local', 'param'):
+                out.add(x['name'])
+            elif isinstance(x, dict) and x.get('k') == 'index' and prog is not None and dispatch_table(prog, fn, e, x):
+                i = strip(x['idx'])
+                if isinstance(i, dict) and i.get('k') == 'var' and i.get('vk') in ('local', 'param'):
+                    out.add(i['name'])
+    return out
+
+
+def partition_values(fn, prog=None, max_blocks=1500):
+    """Trace partitioning on what is known about the value of locals (core.partition_flags does this for locals that
+    only ever hold constants and are tested in a branch).
+
+    * A helper that returns `NULL` on one path and the object on the other, whose caller tests the result again
+      (`thr = alloc(); if (thr == NULL) return -1;`), leaves -- inlined -- a path "allocation failed, caller sees
+      non-NULL" that no execution takes; a parameter replaced by the constant the caller passes leaves `if (0)`.
+    * A local that selects the target of an indirect call (`next = WORKER_DIE; ...; step[next](thr);`,
+      `action = c ? rearm : retire; action(thr);`) decides which function runs.
+
+    Tracked: locals (never address-taken) that are tested against 0/NULL in a branch or select a call target, and
+    the locals copied into them; known values: constants, function names, "some address", copies of known locals,
+    the outcome of an earlier test or of the branch that evaluated the (side-effect free) condition of a `c ? a : b`.
+    Blocks are duplicated per known state of the *live* tracked locals, the edges a state refutes are removed, a store
+    of `c ? a : b` with constant arms takes the arm of the branch on exactly that condition taken just before (else it
+    becomes a branch on c), and an indirect call whose target is known is marked with it (`_target`).  Purely a CFG refinement: every path of the result is a
+    path of the input with the same events; nothing changes when no edge is refuted and no call resolved.
+    Returns (#edges removed, #calls resolved)."""
+    taken, defs = set(), {}
+    for e in fn.events():
+        for x in (walk(e) if e['ev'] not in ('enter', 'load') else ()):
+            if x.get('k') == 'addr':
+                v = strip(x['e'])
+                if isinstance(v, dict) and v.get('k') == 'var':
+                    taken.add(v['name'])
+        if e['ev'] == 'store':
+            l = strip(e['lhs'])
+            if isinstance(l, dict) and l.get('k') == 'var' and l.get('vk') in ('local', 'param'):
+                defs.setdefault(l['name'], []).append(e)
+
+    def tested_var(atom):
+        (op, lc, rc, l, r) = atom
+        if op not in ('==', '!=', '<', '>', '<=', '>=') or not (is_null(r) or _intval(r) is not None):
+            return None
+        v = strip(l)
+        if isinstance(v, dict) and v.get('k') == 'var' and v.get('vk') in ('local', 'param') and v['name'] not in taken:
+            return v['name']
+        # copy propagation spelled the read of a caching local as the access path it cached: still a test of the local
+        w = was_of(l)
+        if w is not None and w not in taken and w in defs and not (isinstance(v, dict) and v.get('k') in ('addr', 'container_of')):
+            return w
+        return None
+
+    def unwas(c):
+        # copy propagation spelled the read of a caching local as the access path it cached (`if (threads)` became
+        # `if (pool->started_threads)` annotated _was=threads): for the purpose of this pass it is a test of the local
+        def rep(nd):
+            w = nd.get('_was')
+            if w is not None and nd.get('k') in ('load', 'member') and w not in taken and w in defs:
+                return {'k': 'load', 'e': {'k': 'var', 'name': w, 'vk': 'local'}}
+            return None
+        return subst(c, rep) if any('_was' in y for y in walk(c)) else c
+
+    def edge_atoms(blk, si):
+        """[(local, op, integer)] the edge asserts"""
+        if not _two_way(blk):
+            return []
+        return [(tested_var(a), a[0], 0 if is_null(a[4]) else _intval(a[4])) for a in norm_cond(unwas(blk.term['cond']), si == 0)
+                if a[0] != 'const' and tested_var(a)]
+
+    def edge_const_false(blk, si):
+        # a parameter replaced by the constant the caller passes leaves `if (0)` / `if (1)` / `if (1 == 0)`
+        if not _two_way(blk):
+            return False
+        c = blk.term['cond']
+        if any(y.get('k') == 'int' for y in walk(c)) and not any(y.get('k') in ('var', 'call', 'member') for y in walk(c)):
+            c = fold(c)
+        return any(a[0] == 'const' and a[1] == 'False' for a in norm_cond(c, si == 0))
+
+    cand = set()
+    for blk in fn.blocks.values():
+        for si in (0, 1):
+            cand |= {v for (v, _, _) in edge_atoms(blk, si)}
+    dv = {v for v in dispatch_vars(prog, fn) if v not in taken}
+    cand |= dv
+    for blk in fn.blocks.values():
+        if blk.term and blk.term.get('cls') == 'SwitchStmt' and blk.term.get('cond') is not None:
+            v = strip(blk.term['cond'])
+            if isinstance(v, dict) and v.get('k') == 'var' and v.get('vk') in ('local', 'param') and v['name'] not in taken:
+                cand.add(v['name'])
+
+    def arms(r):
+        r = strip(r)
+        if isinstance(r, dict) and r.get('k') == 'cond':
+            return arms(r['a']) + arms(r['b'])
+        return [r]
+    ch = True
+    while ch:
+        ch = False
+        for v in list(cand):
+            for d in defs.get(v, ()):
+                for r in (arms(d['rhs']) if (d.get('op') == '=' and 'rhs' in d) else ()):
+                    if isinstance(r, dict) and r.get('k') == 'var' and r.get('vk') in ('local', 'param') and r['name'] not in taken \
+                            and r['name'] not in cand:
+                        cand.add(r['name'])
+                        ch = True
+    if not cand and not any(edge_const_false(blk, si) for blk in fn.blocks.values() for si in (0, 1)) \
+            and not any(blk.term and blk.term.get('cls') == 'SwitchStmt' and _intval(blk.term.get('cond')) is not None for blk in fn.blocks.values()) \
+            and not any(dispatch_target(prog, fn, e) or (prog is not None and isinstance(strip(e['fnexpr']), dict)
+                                                         and strip(e['fnexpr']).get('k') == 'index' and dispatch_table(prog, fn, e, strip(e['fnexpr'])))
+                        for e in fn.events() if e['ev'] == 'call' and 'fnexpr' in e and '_target' not in e):
+        return (0, 0)
+
+    def value_of(rhs, st):
+        r = strip(rhs)
+        while isinstance(r, dict) and r.get('k') == 'bin' and r.get('op') == ',':
+            r = strip(r['r'])               # `(lock(), 1)`: the calls are events of their own, the value is the last operand
+        if not isinstance(r, dict):
+            return None
+        if r.get('k') == 'null':
+            return 'Z'
+        if r.get('k') == 'int':
+            return ('I', r['v'])
+        if _intval(r) is not None:
+            return ('I', _intval(r))
+        if r.get('k') == 'container_of':
+            return 'N'                      # the object around a (non-NULL) member pointer
+        if r.get('k') == 'addr':
+            f_ = strip(r['e'])
+            if isinstance(f_, dict) and f_.get('k') == 'var' and f_.get('vk') == 'func':
+                return ('F', f_['name'])
+            return 'N'
+        if r.get('k') == 'var' and r.get('vk') == 'func':
+            return ('F', r['name'])
+        if r.get('k') == 'var' and r['name'] in cand:
+            return st.get(r['name'])
+        return None
+
+    def zero(v):
+        if v is None:
+            return None
+        if isinstance(v, tuple) and v[0] == 'R':
+            return 'N' if ((v[1] is not None and v[1] > 0) or (v[2] is not None and v[2] < 0)) else None
+        return 'Z' if v in ('Z', ('I', 0)) else 'N'
+
+    def cond_store(e):
+        """(local, condition, arm if true, arm if false) of `v = c ? a : b` whose arms are constants (or again such
+        conditional expressions), resp. of `v = (x == y)`"""
+        if not (e['ev'] == 'store' and e.get('op') == '=' and 'rhs' in e):
+            return None
+        l, r = strip(e['lhs']), strip(e['rhs'])
+        if not (isinstance(l, dict) and l.get('k') == 'var' and l['name'] in cand and isinstance(r, dict)):
+            return None
+        if (r.get('k') == 'bin' and r.get('op') in ('==', '!=', '<', '>', '<=', '>=', '&&', '||')) or (r.get('k') == 'un' and r.get('op') == '!'):
+            # `v = (a == b)`: a branch on the comparison, v known on either side
+            if any(y.get('k') in ('assign', 'incdec', 'stmtexpr', 'cond') or (y.get('k') == 'call' and y.get('callee') not in PURE_CALLS)
+                   for y in walk(r)):
+                return None
+            return (l['name'], r, {'k': 'int', 'v': 1}, {'k': 'int', 'v': 0})
+        if r.get('k') != 'cond':
+            return None
+
+        def const_arm(x):
+            x = strip(x)
+            if isinstance(x, dict) and x.get('k') == 'cond':
+                return const_arm(x['a']) or const_arm(x['b'])
+            v_ = value_of(x, {})
+            return v_ is not None and v_ != 'N'
+
+        def plain_arm(x):
+            # a constant, or a read without side effects (`c ? pool->thread_stop : no_hook`)
+            return not any(y.get('k') in ('assign', 'incdec', 'stmtexpr') or (y.get('k') == 'call' and y.get('callee') not in PURE_CALLS)
+                           for y in walk(x))
+        if not (const_arm(r['a']) or const_arm(r['b'])) or not plain_arm(r['a']) or not plain_arm(r['b']):
+            return None
+        # (a condition with a call in it cannot be branched on again: the call was made -- inlined -- when the CFG
+        # evaluated it; it can still be matched with the outcome of that evaluation)
+        return (l['name'], r['c'], r['a'], r['b'])
+
+    def transfer(e, st):
+        if e['ev'] == 'store':
+            l = strip(e['lhs'])
+            if isinstance(l, dict) and l.get('k') == 'var' and l['name'] in cand:
+                name = l['name']
+                v = value_of(e['rhs'], st) if (e.get('op') == '=' and 'rhs' in e) else None
+                old_ = st.get(name)
+                if v is None and isinstance(old_, tuple) and old_[0] == 'I' or (v is None and old_ == 'Z'):
+                    d_ = store_delta(e)
+                    if d_ is not None:
+                        v = ('I', (old_[1] if isinstance(old_, tuple) else 0) + d_)
+                st = dict(st)
+                st.pop(name, None)
+                if v:
+                    st[name] = v
+        elif e['ev'] == 'decl' and e.get('name') in cand and e['name'] in st:
+            st = dict(st)
+            st.pop(e['name'])
+        return st
+
+    # liveness of the tracked locals at block entry
+    def reads(x):
+        return {y['name'] for y in walk(x) if y.get('k') == 'var' and y.get('name') in cand}
+
+    def block_use_def(blk):
+        use, df = set(), set()
+        for e in blk.events:
+            r = set()
+            plain = None
+            if e['ev'] == 'store':
+                l = strip(e['lhs'])
+                if isinstance(l, dict) and l.get('k') == 'var' and e.get('op') == '=':
+                    plain = l['name']
+            for k_, x in e.items():
+                if isinstance(x, (dict, list)) and not (k_ == 'lhs' and plain is not None):
+                    r |= reads(x)
+            use |= (r - df)
+            if plain in cand:
+                df.add(plain)
+        if blk.term and blk.term.get('cond') is not None:
+            use |= (reads(blk.term['cond']) - df)
+        return use, df
+    ud = {b: block_use_def(blk) for b, blk in fn.blocks.items()}
+    live_in = {b: set() for b in fn.blocks}
+    ch = True
+    while ch:
+        ch = False
+        for b, blk in fn.blocks.items():
+            out = set()
+            for s_ in blk.succ:
+                if s_ is not None:
+                    out |= live_in.get(s_, set())
+            lv = ud[b][0] | (out - ud[b][1])
+            if lv != live_in[b]:
+                live_in[b] = lv
+                ch = True
+
+    ids, work, newblocks = {}, [], {}
+    gained = [0, 0, 0]          # edges removed, calls resolved, conditional stores split
+
+    def node(b, i0, st, pre=None):
+        if b == fn.exit:
+            key = (b, 0, frozenset(), None)
+        elif i0 == 0:
+            key = (b, 0, frozenset((v, x) for (v, x) in st.items() if v in live_in[b] or v[:1] == '?'), None)
+        else:
+            key = (b, i0, frozenset(st.items()), id(pre))
+        if key not in ids:
+            ids[key] = len(ids)
+            work.append((key, pre))
+        return ids[key]
+
+    def impure(x):
+        return any(y.get('k') in ('assign', 'incdec', 'stmtexpr') or (y.get('k') == 'call' and y.get('callee') not in PURE_CALLS)
+                   for y in walk(x))
+
+    def switch_pick(blk, st):
+        """index of the only successor a `switch (v)` on a local with a known value can take"""
+        if not (blk.term and blk.term.get('cls') == 'SwitchStmt' and blk.term.get('cond') is not None
+                and len(blk.term.get('cases', [])) == len(blk.succ)):
+            return None
+        v = strip(blk.term['cond'])
+        if _intval(v) is not None:
+            n = _intval(v)                  # a parameter replaced by the constant the caller passes
+        elif isinstance(v, dict) and v.get('k') == 'var' and v['name'] in cand:
+            x = st.get(v['name'])
+            n = x[1] if isinstance(x, tuple) and x[0] == 'I' else (0 if x == 'Z' else None)
+        else:
+            return None
+        if n is None:
+            return None
+        cases = blk.term['cases']
+        for si, cv in enumerate(cases):
+            if isinstance(cv, int) and not isinstance(cv, bool) and cv == n:
+                return si
+        for si, cv in enumerate(cases):
+            if cv == 'default':
+                return si
+        return None
+
+    entry = node(fn.entry, 0, {})
+    while work:
+        (key, pre) = work.pop()
+        if len(ids) > max_blocks:
+            return (0, 0)
+        b, i0, fs, _ = key
+        blk = fn.blocks[b]
+        st = dict(fs)
+        evs = []
+        nb = Block(ids[key], evs, [], None, blk.noreturn)
+        if hasattr(blk, 'labels'):
+            nb.labels = blk.labels
+        newblocks[nb.id] = nb
+        split = False
+        todo = ([(i0, pre)] if pre is not None else []) + [(i + 1, blk.events[i]) for i in range(i0, len(blk.events))]
+        for (nxt, e) in todo:
+            cs = cond_store(e)
+            # the branch that evaluated the condition of this `c ? a : b` was taken just before: its outcome is known
+            # (the outcomes of the conditional-operator branches on the path, oldest first, are matched with the nested
+            # `c ? a : b` from the outside in: that is the order in which the CFG evaluates them)
+            while cs is not None and st.get('?q'):
+                q_ = st['?q']
+                cn = canon(cs[1])
+                if not any(y.get('k') == 'call' for y in walk(cs[1])):
+                    # a side-effect free condition: only the outcome of the branch on exactly this condition will do
+                    # (earlier entries belong to conditions that constant folding removed from the expression)
+                    ix = next((i_ for i_, (o_, c_, a_) in enumerate(q_) if c_ == cn), None)
+                else:
+                    # the condition still spells a call (resolve_ghost_calls could not name its result): not decided here
+                    ix = None
+                if ix is None:
+                    st = {k_: v_ for k_, v_ in st.items() if k_ != '?q'}
+                    break
+                o_ = q_[ix][0]
+                e = dict(e, rhs=(cs[2] if o_ == 'T' else cs[3]))
+                st = dict(st)
+                st['?q'] = q_[ix + 1:]
+                if not st['?q']:
+                    del st['?q']
+                cs = cond_store(e)
+            if '?q' in st and any(y.get('k') == 'cond' for y in walk(e)):
+                st = {k_: v_ for k_, v_ in st.items() if k_ != '?q'}              # some other use of a conditional expression
+            if cs is not None and impure(cs[1]):
+                cs = None
+            if cs is not None:
+                (name, c_, a_, b_) = cs
+                nb.term = {'cls': 'FlagSplit', 'cond': c_, 'loc': e.get('loc', '')}
+                nb.succ = [node(b, nxt, st, dict(e, rhs=a_)), node(b, nxt, st, dict(e, rhs=b_))]
+                gained[2] += 1
+                split = True
+                break
+            e2 = dict(e)
+            if e['ev'] == 'call' and 'fnexpr' in e and '_target' not in e:
+                t = dispatch_target(prog, fn, e, st)
+                if t:
+                    e2['_target'] = t
+                    gained[1] += 1
+                else:
+                    # `action[!!thr->kicked](thr)`: a table of two, indexed by a truth value: a branch on it
+                    x_ = strip(e['fnexpr'])
+                    tb_ = dispatch_table(prog, fn, e, x_) if (prog is not None and isinstance(x_, dict) and x_.get('k') == 'index') else None
+                    ix_ = strip(x_['idx']) if tb_ else None
+                    if tb_ and set(tb_) >= {0, 1} and isinstance(ix_, dict) and not impure(ix_) and \
+                            ((ix_.get('k') == 'un' and ix_.get('op') == '!') or (ix_.get('k') == 'bin' and ix_.get('op') in ('==', '!=', '<', '>', '<=', '>=', '&&', '||'))):
+                        nb.term = {'cls': 'FlagSplit', 'cond': ix_, 'loc': e.get('loc', '')}
+                        nb.succ = [node(b, nxt, st, dict(e, _target=tb_[1])), node(b, nxt, st, dict(e, _target=tb_[0]))]
+                        gained[1] += 1
+                        split = True
+                        break
+            st = transfer(e, st)
+            evs.append(e2)
+        if split:
+            continue
+        nb.term = dict(blk.term) if blk.term else None
+        succ = []
+        dropped = None
+        only = switch_pick(blk, st)
+        for si, s_ in enumerate(blk.succ):
+            if s_ is None:
+                succ.append(None)
+                continue
+            if only is not None and si != only:
+                gained[0] += 1
+                continue
+            st2, ok = st, not edge_const_false(blk, si)
+            for (v, op, m) in (edge_atoms(blk, si) if ok else ()):
+                x2 = _refine(st2.get(v), op, m)
+                if x2 == 'empty':
+                    ok = False              # what is known about the local refutes the comparison
+                    break
+                if x2 != st2.get(v):
+                    st2 = dict(st2)
+                    if x2 is None:
+                        st2.pop(v, None)
+                    else:
+                        st2[v] = x2
+            if not ok:
+                dropped = si
+                gained[0] += 1
+                continue
+            # outcome of the evaluation of a conditional expression, remembered until the expression is used
+            if '?q' in st2:
+                q_ = tuple((o_, c_, a_ + 1) for (o_, c_, a_) in st2['?q'] if a_ < 6)
+                st2 = {k_: v_ for k_, v_ in st2.items() if k_ != '?q'}
+                if q_:
+                    st2['?q'] = q_
+            t_ = blk.term or {}
+            if t_.get('cls') == 'ConditionalOperator' and _two_way(blk) and si in (0, 1):
+                st2 = dict(st2)
+                if not impure(t_['cond']):
+                    st2['?q'] = st2.get('?q', ()) + (('T' if si == 0 else 'F', canon(t_['cond']), 0),)
+            succ.append(node(s_, 0, st2))
+        if only is not None:
+            t = dict(nb.term, cls='Pruned')
+            t.pop('cond', None)
+            t.pop('cases', None)
+            nb.term = t
+        elif dropped is not None and _two_way(blk) and len(succ) == 1:
+            t = dict(nb.term, cls='Pruned', pruned=('true' if dropped == 0 else 'false'))
+            t.pop('cond', None)
+            nb.term = t
+        nb.succ = succ
+    if not gained[0] and not gained[1]:
+        return (0, 0)
+    ex = ids.get((fn.exit, 0, frozenset(), None))
+    fn.blocks = newblocks
+    fn.entry = entry
+    if ex is None:
+        ex = max(newblocks) + 1
+        fn.blocks[ex] = Block(ex, [], [], None)
+    fn.exit = ex
+    fn._preds = None
+    for b in fn.blocks.values():
+        for i, e in enumerate(b.events):
+            e['_b'] = b.id
+            e['_i'] = i
+    for a in ('_h13_al', '_h13_fc', '_h13_live', '_h13_arith'):
+        if hasattr(fn, a):
+            setattr(fn, a, None)
+    return (gained[0], gained[1])
+
+
+def _refine(x, op, m):
+    """abstract value of an integer / pointer local after the comparison `local op m` came out true: 'empty' when what
+    was known refutes it.  Values: None (unknown), 'Z' (0 / NULL), 'N' (non-zero), ('I', n), ('F', function),
+    ('R', lo, hi) (integer range, None = unbounded)."""
+    if isinstance(x, tuple) and x[0] == 'F' or x == 'N':
+        if m == 0 and op == '==':
+            return 'empty'
+        return x
+    if x == 'Z':
+        lo, hi = 0, 0
+    elif isinstance(x, tuple) and x[0] == 'I':
+        lo, hi = x[1], x[1]
+    elif isinstance(x, tuple) and x[0] == 'R':
+        lo, hi = x[1], x[2]
+    else:
+        lo, hi = None, None
+    mx = lambda a_, b_: b_ if a_ is None else (a_ if b_ is None else max(a_, b_))
+    mn = lambda a_, b_: b_ if a_ is None else (a_ if b_ is None else min(a_, b_))
+    if op == '==':
+        lo, hi = mx(lo, m), mn(hi, m)
+    elif op == '!=':
+        if lo == hi == m:
+            return 'empty'
+        if lo == m:
+            lo = m + 1
+        if hi == m:
+            hi = m - 1
+        if lo is None and hi is None:
+            return 'N' if m == 0 else x
+    elif op == '<':
+        hi = mn(hi, m - 1)
+    elif op == '<=':
+        hi = mn(hi, m)
+    elif op == '>':
+        lo = mx(lo, m + 1)
+    elif op == '>=':
+        lo = mx(lo, m)
+    if lo is not None and hi is not None and lo > hi:
+        return 'empty'
+    if lo is not None and lo == hi:
+        return 'Z' if lo == 0 else ('I', lo)
+    if lo is None and hi is None:
+        return None
+    return ('R', lo, hi)
+
+
+def _intval(x):
+    x = strip(x)
+    if isinstance(x, dict) and x.get('k') == 'un' and x.get('op') == '-' and is_int(x.get('e')):
+        return -strip(x['e'])['v']
+    return x['v'] if is_int(x) else None
+
+
+def dispatch_only(prog):
+    """qualified names of static functions whose address is used only to select them as the target of a call that
+    the program text decides: an element of a const static table / struct of functions that is only ever called
+    through, or a value of a local function pointer that is only ever called.  They are entered where they are
+    called (enter_resolved_calls) and are no entry points of their own."""
+    c = _cache(prog)
+    if 'donly' in c:
+        return c['donly']
+    esc, cand = set(), set()
+
+    def res(u, name):
+        t = (prog.resolve(u, name) if u else None) or prog.funcs.get(name)
+        return t.q if t is not None else None
+    # tables: const static aggregates of functions every use of which is the callee expression of a call
+    tables = {}
+    for key, g in prog.globals.items():
+        init = g.get('init') if isinstance(g, dict) else None
+        if not isinstance(init, dict):
+            continue
+        unit = g.get('unit') or (key.split(':')[0] if ':' in key else None)
+        names = [res(unit, x['name']) for x in walk(init) if x.get('k') == 'var' and x.get('vk') == 'func']
+        names = [n for n in names if n]
+        if not names:
+            continue
+        if g.get('static') and 'const' in str(g.get('type', '')) and init.get('k') == 'init' and not g.get('record', '').startswith('iv_'):
+            tables[(unit, g['name'])] = names
+        else:
+            esc |= set(names)
+    used_ok = {k_: True for k_ in tables}
+    # static helpers that *return* a function (`return shutting_down ? worker_die : worker_go_idle;`): the functions are
+    # handed to whoever calls the helper (below: a local that is only called)
+    fret = {}
+    for f in prog.all_funcs():
+        if not f.static:
+            continue
+        u = prog.unit_of(f)
+        for e in f.events():
+            if e['ev'] == 'ret' and 'value' in e:
+                for a_ in _arms(e['value']):
+                    if isinstance(a_, dict) and a_.get('k') == 'addr':
+                        a_ = strip(a_['e'])
+                    if isinstance(a_, dict) and a_.get('k') == 'var' and a_.get('vk') == 'func' and res(u, a_['name']):
+                        fret.setdefault((u, f.name), set()).add(res(u, a_['name']))
+    for f in prog.all_funcs():
+        u = prog.unit_of(f)
+        # locals of f that are only assigned and called
+        lstore, lother, tptr, lelem = {}, set(), {}, {}
+        for e in f.events():
+            callee_base = None
+            # `next = ops->exit;` / `next = c ? TABLE.a : TABLE.b;`: elements of a table read into a local (that must
+            # itself only be called): the table variable / the table pointer under such a read is no escaping use
+            elem_ok = set()
+            if e['ev'] == 'ret' and 'value' in e and f.static:
+                for a_ in _arms(e['value']):
+                    if isinstance(a_, dict) and a_.get('k') == 'addr':
+                        a_ = strip(a_['e'])
+                    if isinstance(a_, dict) and a_.get('k') == 'var' and a_.get('vk') == 'func':
+                        elem_ok.add(id(a_))             # accounted for through fret at the helper's call sites
+            if e['ev'] == 'store' and e.get('op') == '=' and 'rhs' in e and isinstance(strip(e['lhs']), dict) \
+                    and strip(e['lhs']).get('k') == 'var' and strip(e['lhs']).get('vk') == 'local':
+                for a_ in _arms(e['rhs']):
+                    if isinstance(a_, dict) and a_.get('k') == 'call' and (u, a_.get('callee')) in fret:
+                        lstore.setdefault(strip(e['lhs'])['name'], set()).update(fret[(u, a_['callee'])])
+                        elem_ok.add(id(a_))
+                    if isinstance(a_, dict) and a_.get('k') in ('member', 'index'):
+                        b_ = a_.get('base')
+                        while isinstance(b_, dict) and b_.get('k') == 'load':
+                            b_ = b_.get('e')
+                        if isinstance(b_, dict) and b_.get('k') == 'var':
+                            elem_ok.add(id(b_))
+                            lelem.setdefault(strip(e['lhs'])['name'], []).append(b_)
+            if e['ev'] == 'call' and 'fnexpr' in e:
+                x = strip(e['fnexpr'])
+                if isinstance(x, dict) and x.get('k') in ('index', 'member'):
+                    b = x.get('base')
+                    while isinstance(b, dict) and b.get('k') == 'load':
+                        b = b.get('e')
+                    if isinstance(b, dict) and b.get('k') == 'var' and (x.get('k') == 'index' or not x.get('arrow') or b.get('vk') == 'local'):
+                        callee_base = b
+            for k_, v in e.items():
+                if not isinstance(v, (dict, list)):
+                    continue
+                for x in walk(v):
+                    if x.get('k') == 'call' and (u, x.get('callee')) in fret and id(x) not in elem_ok and e['ev'] not in ('call', 'load'):
+                        esc.update(fret[(u, x['callee'])])
+                    if x.get('k') != 'var':
+                        continue
+                    if id(x) in elem_ok:
+                        continue
+                    if x.get('vk') in ('global', 'staticlocal') and (u, x['name']) in tables and x is not callee_base and e['ev'] != 'load':
+                        # `ops = &TABLE` into a local that is itself only called through is as good as the table
+                        l = strip(e['lhs']) if e['ev'] == 'store' else None
+                        r = strip(e['rhs']) if (e['ev'] == 'store' and e.get('op') == '=' and 'rhs' in e) else None
+                        if k_ == 'rhs' and isinstance(l, dict) and l.get('k') == 'var' and l.get('vk') == 'local' \
+                                and isinstance(r, dict) and r.get('k') == 'addr' and strip(r['e']) is x:
+                            tptr.setdefault(l['name'], set()).add((u, x['name']))
+                        else:
+                            used_ok[(u, x['name'])] = False
+                    if x.get('vk') == 'func':
+                        q = res(u, x['name'])
+                        if q is None:
+                            continue
+                        l = strip(e['lhs']) if e['ev'] == 'store' else None
+                        direct = e['ev'] == 'store' and k_ == 'rhs' and e.get('op') == '=' and isinstance(l, dict) and l.get('k') == 'var' \
+                            and l.get('vk') == 'local' and any(a_ is x for a_ in _arms(e['rhs']))
+                        if direct:
+                            lstore.setdefault(l['name'], set()).add(q)
+                        elif e['ev'] == 'call' and k_ == 'fnexpr' and strip(e['fnexpr']) is x:
+                            pass
+                        else:
+                            esc.add(q)
+                    elif x.get('vk') == 'local':
+                        is_lhs = e['ev'] == 'store' and k_ == 'lhs' and strip(e['lhs']) is x
+                        is_callee = e['ev'] == 'call' and k_ == 'fnexpr' and (strip(e['fnexpr']) is x or callee_base is x)
+                        if not (is_lhs or is_callee or e['ev'] == 'load'):
+                            lother.add(x['name'])
+            if e['ev'] == 'decl' and 'init' in e:
+                for x in walk(e['init']):
+                    if x.get('k') == 'var' and x.get('vk') == 'func' and res(u, x['name']):
+                        esc.add(res(u, x['name']))
+        for t in f.blocks.values():
+            if t.term and t.term.get('cond') is not None:
+                for x in walk(t.term['cond']):
+                    if x.get('k') == 'var' and x.get('vk') == 'local':
+                        lother.add(x['name'])
+                    if x.get('k') == 'var' and x.get('vk') == 'func' and res(u, x['name']):
+                        esc.add(res(u, x['name']))
+        for v, qs in lstore.items():
+            if v in lother:
+                esc |= qs
+            else:
+                cand |= qs
+        for v, ks in tptr.items():
+            if v in lother:
+                for k_ in ks:
+                    used_ok[k_] = False
+        for v, bases in lelem.items():
+            # the local that received table elements is used for something else than being called: the tables escape
+            if v in lother:
+                for b_ in bases:
+                    if b_.get('vk') in ('global', 'staticlocal') and (u, b_['name']) in tables:
+                        used_ok[(u, b_['name'])] = False
+                    for k_ in tptr.get(b_.get('name'), ()):
+                        used_ok[k_] = False
+    for k_, names in tables.items():
+        if used_ok[k_]:
+            cand |= set(names)
+        else:
+            esc |= set(names)
+    out = {q for q in cand - esc if prog.funcs.get(q) is not None and prog.funcs[q].static}
+    c['donly'] = out
+    return out
+
+
+def _arms(r):
+    r = strip(r)
+    if isinstance(r, dict) and r.get('k') == 'cond':
+        return _arms(r['a']) + _arms(r['b'])
+    return [r]
+
+
+def unresolved_dispatch(prog, g):
+    """indirect calls of a context that may enter a dispatch_only() function -- through a local that is assigned one
+    somewhere in the context, or through a const table that contains one -- and whose target was not found"""
+    d = {q.split(':')[-1] for q in dispatch_only(prog)}
+    holds = {}
+    for e in g.events():
+        if e['ev'] == 'store' and e.get('op') == '=' and 'rhs' in e:
+            l = strip(e['lhs'])
+            if isinstance(l, dict) and l.get('k') == 'var':
+                for a_ in _arms(e['rhs']):
+                    if isinstance(a_, dict) and a_.get('k') == 'addr':
+                        a_ = strip(a_['e'])
+                    if isinstance(a_, dict) and a_.get('k') == 'var' and a_.get('vk') == 'func':
+                        holds.setdefault(l['name'], set()).add(a_['name'])
+    out = []
+    for e in g.events():
+        if e['ev'] == 'call' and 'fnexpr' in e:
+            x = strip(e['fnexpr'])
+            if isinstance(x, dict) and x.get('k') == 'var' and x.get('vk') != 'func' and holds.get(x['name'], set()) & d:
+                out.append(e)
+            elif isinstance(x, dict) and x.get('k') in ('index', 'member'):
+                t = dispatch_table(prog, g, e, x)
+                if t and set(t.values()) & d:
+                    out.append(e)
+    return out
+
+
+def entry_points(prog):
+    """roles.roots() without the functions that are only entered through calls the program text decides, provided
+    every such call was resolved in every context (otherwise they stay entry points of their own)"""
+    c = _cache(prog)
+    if 'roots' in c:
+        return c['roots']
+    rs = roles.roots(prog)
+    # the loader calls constructor functions: entry points although nobody takes their address
+    rs = rs + [f for f in sorted(prog.all_funcs(), key=lambda f: f.q)
+               if getattr(f, 'constructor', False) and f.blocks and f.file.endswith('.c') and f not in rs]
+    d = dispatch_only(prog)
+    if d:
+        keep = [r for r in rs if r.q not in d]
+        c['roots'] = keep
+        if any(unresolved_dispatch(prog, ctx_of(prog, r)) for r in keep):
+            keep = rs
+        rs = keep
+    c['roots'] = rs
+    return rs
+
+
 def contexts(prog, site_pred, key=None):
     """[(root, inlined root, [site events])] for every entry point whose inlined, normalised body contains a site.
     Every entry point of the library is looked at (a site may only become recognisable after normalisation, e.g. a
@@ -149,7 +1919,7 @@ def contexts(prog, site_pred, key=None):
     if key is not None and ('cx', key) in c:
         return c[('cx', key)]
     out = []
-    for r in roles.roots(prog):
+    for r in entry_points(prog):
         g = ctx_of(prog, r)
         sites = [e for e in g.events() if site_pred(e)]
         if sites:
@@ -432,7 +2202,9 @@ def guards(fn, assertions=True, unlock_kills=True):
             defs_of.setdefault(strip(e['lhs'])['name'], []).append(e)
 
     def was_names(x):
-        return {y['_was'] for y in walk(x) if '_was' in y}
+        # only locals that cached a *value*: an address (`done = &pool->work_done`, container_of) computed before the
+        # lock is pointer arithmetic; what is tested is read through it at the test
+        return {y['_was'] for y in walk(x) if '_was' in y and y.get('k') not in ('addr', 'container_of')}
 
     avail = arith_locals(fn)
 
@@ -496,6 +2268,12 @@ def guards(fn, assertions=True, unlock_kills=True):
                         for a in alt:
                             if a[0] == 'def' and a[1] == lk:
                                 cand.append((op2, a[2], rk, a[3], a[4]))
+                    # ... also on the right (`w.head == w.tail` with both locals read from the fields)
+                    for c_ in list(cand):
+                        if c_[2][0] == 'var':
+                            for a in alt:
+                                if a[0] == 'def' and a[1] == c_[2]:
+                                    cand.append((c_[0], c_[1], a[2], c_[3] & a[3], c_[4] | a[4]))
                     for c_ in cand:
                         if not consistent(alt, c_):
                             ok = False
@@ -621,8 +2399,24 @@ def g_equal(S, k1, k2, lock=None):
     return bool(al) and all(one(A) for A in al)
 
 
-def g_zero(A, k, lock=None):
-    return g_equal(A, k, INT0, lock)
+def g_zero(A, k, lock=None, count=False):
+    """count: k is a count of objects (only stepped by one, from 0: checked elsewhere), so `k <= 0`, `k < 1` and
+    `!(k > 0)` decide k == 0 as well"""
+    if not count:
+        return g_equal(A, k, INT0, lock)
+
+    def one(alt):
+        for a in alt:
+            if a[1] != k or (lock is not None and lock not in a[3]):
+                continue
+            n = _num(a[2])
+            if n is None:
+                continue
+            if (a[0] == '==' and n == 0) or (a[0] == '<=' and n == 0) or (a[0] == '<' and n == 1):
+                return True
+        return False
+    al = _alts(A)
+    return bool(al) and all(one(x) for x in al)
 
 
 def g_nonzero(S, k, lock=None):
@@ -690,6 +2484,43 @@ def arith_locals(fn):
     return ev_in
 
 
+def value_copies(fn, key, lock=None):
+    """{(b, i): frozenset(locals)}: the locals that hold the current value of the field `key` = ('field', record, name):
+    assigned from a read of the field, from the value of a `++f` / `--f` / `f += n` on it or from another such local,
+    and neither the local nor the field was stored to since; taking or releasing `lock` forgets everything (a value read
+    outside the lock region may be stale inside it and the other way round)."""
+    rf = (key[1], key[2])
+
+    def is_val(x, S):
+        x0 = strip(x)
+        if not isinstance(x0, dict):
+            return False
+        if x0.get('k') == 'var':
+            return x0['name'] in S
+        if x0.get('k') == 'incdec' and x0.get('prefix'):
+            return last_member(x0.get('e')) == rf
+        if x0.get('k') == 'assign':
+            return last_member(x0.get('l')) == rf
+        return x0.get('k') == 'member' and last_member(x0) == rf
+
+    def tr(e, S):
+        if e['ev'] == 'store':
+            l = strip(e['lhs'])
+            if isinstance(l, dict) and l.get('k') == 'var':
+                if e.get('op') == '=' and 'rhs' in e and is_val(e['rhs'], S):
+                    return S | {l['name']}
+                return S - {l['name']}
+            if rf in lvalue_steps(e['lhs']) or (isinstance(l, dict) and l.get('k') in ('deref', 'index')):
+                return frozenset()
+        elif e['ev'] == 'decl':
+            return S - {e.get('name')}
+        elif e['ev'] == 'call' and lock is not None and any(lid == lock for (op, lid) in lock_effect(e)):
+            return frozenset()
+        return S
+    _, ev_in = forward(fn, frozenset(), tr, lambda a, b: a & b)
+    return ev_in
+
+
 def called_field(fn, e):
     """(record, field) of the function-pointer field an indirect call goes through, also when the pointer was first
     loaded into a local"""
@@ -733,8 +2564,80 @@ def result_vars(fn, callees):
     return rv
 
 
+def int_value_sets(g):
+    """{(b, i): {local: frozenset of integers}}: the integer constants a local can hold at a point (flow-sensitive: constants,
+    copies, `c ? K1 : K2`, refined by comparisons with constants on the way; a local that may hold anything else is absent)"""
+    c = getattr(g, '_h13_ivs', None)
+    if c is not None:
+        return c
+    CAP = 8
+
+    def val(x, S):
+        x = strip(x)
+        if _intval(x) is not None:
+            return frozenset({_intval(x)})
+        if isinstance(x, dict) and x.get('k') == 'var' and x.get('vk') in ('local', 'param'):
+            return S.get(x['name'])
+        if isinstance(x, dict) and x.get('k') == 'cond':
+            a_, b_ = val(x['a'], S), val(x['b'], S)
+            return None if (a_ is None or b_ is None) else (a_ | b_)
+        if isinstance(x, dict) and ((x.get('k') == 'bin' and x.get('op') in ('==', '!=', '<', '>', '<=', '>=', '&&', '||')) or
+                                    (x.get('k') == 'un' and x.get('op') == '!')):
+            return frozenset({0, 1})
+        return None
+
+    def tr(e, S):
+        if e['ev'] == 'store':
+            l = strip(e['lhs'])
+            if isinstance(l, dict) and l.get('k') == 'var':
+                v = val(e['rhs'], S) if (e.get('op') == '=' and 'rhs' in e) else None
+                S = {k_: v_ for k_, v_ in S.items() if k_ != l['name']}
+                if v is not None and len(v) <= CAP:
+                    S[l['name']] = v
+        elif e['ev'] == 'decl':
+            S = {k_: v_ for k_, v_ in S.items() if k_ != e.get('name')}
+        elif e['ev'] == 'call':
+            for a_ in e.get('args', []):
+                a_ = strip(a_)
+                if isinstance(a_, dict) and a_.get('k') == 'addr':
+                    v = strip(a_['e'])
+                    if isinstance(v, dict) and v.get('k') == 'var':
+                        S = {k_: v_ for k_, v_ in S.items() if k_ != v['name']}
+        return S
+
+    def ed(blk, si, S):
+        if not _two_way(blk):
+            return S
+        for (op, lc, rc, l, r) in norm_cond(blk.term['cond'], si == 0):
+            if op == 'const':
+                if lc == 'False':
+                    return None
+                continue
+            v, m = strip(l), (0 if is_null(r) else _intval(r))
+            if m is None or not (isinstance(v, dict) and v.get('k') == 'var' and v['name'] in S):
+                continue
+            keep = frozenset(x for x in S[v['name']] if _sat(x, op, m))
+            if not keep:
+                return None
+            S = dict(S)
+            S[v['name']] = keep
+        return S
+
+    def jn(a, b):
+        out = {}
+        for k_ in a:
+            if k_ in b and len(a[k_] | b[k_]) <= CAP:
+                out[k_] = a[k_] | b[k_]
+        return out
+    _, ev_in = forward(g, {}, tr, jn, edge=ed)
+    g._h13_ivs = ev_in
+    return ev_in
+
+
 def return_values(prog, callee):
-    """set of integer constants a repository function returns, or None when it returns something else too"""
+    """set of integer constants a repository function returns, or None when it returns something else too
+    (looked at in its calling context: `return helper_that_returns_minus_one(...)`; a result variable stands for every
+    constant it is ever given)"""
     c = _cache(prog)
     key = ('retvals', callee)
     if key in c:
@@ -742,17 +2645,74 @@ def return_values(prog, callee):
     out = None
     f = prog.funcs.get(callee)
     if f is not None and f.blocks and not f.static:
+        g = ctx_of(prog, f)
         vals = set()
-        for e in f.events():
-            if e['ev'] == 'ret' and 'value' in e:
-                v = strip(e['value'])
-                if isinstance(v, dict) and v.get('k') == 'un' and v.get('op') == '-' and is_int(v.get('e')):
-                    vals.add(-strip(v['e'])['v'])
-                elif is_int(v):
-                    vals.add(v['v'])
-                else:
+
+        def const(v):
+            v = strip(v)
+            return _intval(v)
+
+        def of_var(name, seen):
+            if name in seen:
+                return set()
+            seen = seen | {name}
+            acc = set()
+            for d in g.events():
+                if d['ev'] == 'store' and strip(d['lhs']).get('k') == 'var' and strip(d['lhs'])['name'] == name:
+                    r = strip(d['rhs']) if (d.get('op') == '=' and 'rhs' in d) else None
+                    if const(r) is not None:
+                        acc.add(const(r))
+                    elif isinstance(r, dict) and r.get('k') == 'var' and r.get('vk') == 'local':
+                        sub = of_var(r['name'], seen)
+                        if sub is None:
+                            return None
+                        acc |= sub
+                    elif isinstance(r, dict) and r.get('k') == 'cond':
+                        arms_ = []
+                        st_ = [r]
+                        while st_:
+                            y = strip(st_.pop())
+                            if isinstance(y, dict) and y.get('k') == 'cond':
+                                st_ += [y['a'], y['b']]
+                            else:
+                                arms_.append(y)
+                        if any(const(y) is None for y in arms_):
+                            return None
+                        acc |= {const(y) for y in arms_}
+                    else:
+                        return None
+            return acc
+        def of_expr(v):
+            v = strip(v)
+            if const(v) is not None:
+                return {const(v)}
+            if isinstance(v, dict) and v.get('k') == 'var' and v.get('vk') == 'local':
+                return of_var(v['name'], frozenset())
+            if isinstance(v, dict) and v.get('k') == 'cond':          # `return ok ? 0 : -1;`
+                a_, b_ = of_expr(v['a']), of_expr(v['b'])
+                return None if (a_ is None or b_ is None) else a_ | b_
+            return None
+        def own_return(blk, i, e):
+            # the return of an inlined helper is preceded by the store of its value into the result variable
+            # (after a second inlining round 'chain'/'fn' no longer tell them apart)
+            if e.get('chain'):
+                return False
+            p_ = blk.events[i - 1] if i > 0 else None
+            return not (p_ is not None and p_['ev'] == 'store' and p_.get('is_ret') and p_.get('loc') == e.get('loc'))
+        ivs = int_value_sets(g)
+        for (blk, i, e) in [(blk, i, e) for blk in g.blocks.values() for i, e in enumerate(blk.events)]:
+            if e['ev'] == 'ret' and 'value' in e and own_return(blk, i, e):
+                sub = of_expr(e['value'])
+                if sub is None:
+                    # what the returned local can hold *here* (`ret = helper(); if (ret < 0) return ret;`)
+                    v_ = strip(e['value'])
+                    if isinstance(v_, dict) and v_.get('k') == 'var' and (blk.id, i) in ivs:
+                        sub = ivs[(blk.id, i)].get(v_['name'])
+                        sub = set(sub) if sub is not None else None
+                if sub is None:
                     vals = None
                     break
+                vals |= sub
         out = frozenset(vals) if vals else None
     c[key] = out
     return out
@@ -979,8 +2939,7 @@ class Worlds:
         return frozenset(out)
 
     def _is_obj(self, a):
-        a = strip(a)
-        return isinstance(a, dict) and a.get('k') == 'var' and a.get('record') == self.record
+        return obj_record(a) == self.record
 
     def transfer(self, e, S):
         ev = e['ev']
@@ -998,7 +2957,11 @@ class Worlds:
             if self.paired:
                 st = lvalue_steps(e['lhs'])
                 if len(st) == 2 and st[1] == (self.record, self.paired[1]) and st[0][0] == 'iv_list_head' and e.get('op') == '=':
-                    return self._set(S, self.LIST, 0 if is_null(e.get('rhs')) else 1)
+                    # NULL, or the address of the linkage itself (INIT_IV_LIST_HEAD written out): not linked
+                    r_ = strip(e.get('rhs'))
+                    selfref = isinstance(r_, dict) and r_.get('k') == 'addr' and last_member(r_['e']) == (self.record, self.paired[1]) \
+                        and canon(root_var(r_['e']) or {'k': 'int', 'v': 0}) == canon(root_var(e['lhs']) or {'k': 'int', 'v': 1})
+                    return self._set(S, self.LIST, 0 if (is_null(e.get('rhs')) or selfref) else 1)
             return S
         if ev != 'call':
             return S
@@ -1062,16 +3025,17 @@ def _addr_member(a):
 
 
 def fields_types(prog, record):
-    """[(field, embedded object kind)] of a record's fields that are library objects or mutexes"""
-    r = prog.records.get(record)
-    if not r or 'fields' not in r:
-        return []
+    """[(field, embedded object kind)] of a record's fields that are library objects or mutexes (grouping sub-structs
+    flattened, fields under the names the contexts use)"""
+    if record in OWNERS and 'renames' not in _cache(prog):
+        _derive_renames(prog)
+    ren = _cache(prog).get('renames') or {}
     out = []
-    for fl in r['fields']:
+    for fl in (flat_fields(prog, record) if record in OWNERS else (prog.records.get(record) or {}).get('fields', [])):
         t = fl.get('record') or ('pthread_mutex_t' if 'mutex' in fl['type'] else None)
         if t is None:
             continue
         if 'mutex' in str(fl['type']) or t == 'pthread_mutex_t':
             t = 'pthread_mutex_t'
-        out.append((fl['name'], t))
+        out.append((ren.get((record, fl['name']), fl['name']), t))
     return out
